@@ -12,2637 +12,1096 @@ Definition show_fres (r : fres) : string :=
   end.
 Definition check (rs : list rune) : string := digest (show_fres (format_res rs)).
 Definition full (rs : list rune) : string := show_fres (format_res rs).
-Eval vm_compute in ("<<<M4245>>>" ++ check (runes_of_ascii "options {
+Eval vm_compute in ("<<<M87>>>" ++ check (runes_of_ascii "packet Logon{
+    repeat string
+a1 `crlf
+line` ,@lengthOf(
+Pad
+    ) match  Pad as
+u8x
+    { 4294967296
+//
+// " ++ [128512]%N ++ runes_of_ascii " emoji
+: // `tick` ""quote"" 'q'
+i8i8 , } ,
+asx a1 ,
+// a // b
+// @lengthOf(
+@lengthOf(body ) //x
+msg_type int
+,tag`line1
+line2` , repeat
+// packet A { u8 x, }
+// packet A { u8 x, }
+Z9_{ u16
+    packetx	@calculatedFrom(
+    ""it's"" ) , } , @lengthOf(
+// " ++ [128512]%N ++ runes_of_ascii " emoji
+//	t
+Logon ) // " ++ [128512]%N ++ runes_of_ascii " emoji
+@rightPad (
+)	@calculatedFrom(""" ++ [233]%N ++ runes_of_ascii "t" ++ [233]%N ++ runes_of_ascii """ ) repeat roots	u128 // `tick` ""quote"" 'q'
+,@calculatedFrom( ""{,}"") chars{ match // " ++ [128512]%N ++ runes_of_ascii " emoji
+roots as Foo {
+    10 :trueish
+// trailing space 
+// @lengthOf(
+, },} , i8i8 ,@calculatedFrom( ""x y"" ) @calculatedFrom( ""a\""b"" ) repeat Z9_
+{  f32a msg_type ,
+repeat o{
+// " ++ [128512]%N ++ runes_of_ascii " emoji
+// @lengthOf(
+zchar[ 0	]
+charz @calculatedFrom(""CRC32"" ) ,
+}
+,}
+    ,
+} root
+    packet	BodyLength
+{ calculatedFrom
+{
+char[]x@calculatedFrom(
+""\n""
+)
+    , // @lengthOf(
+_x @calculatedFrom( ""`tick`""
+    ),	repeat u128,float Packet
+`" ++ [28040; 24687; 31867; 22411]%N ++ runes_of_ascii "`
+    ,}
+    , repeat Foo	{ uint64 a1
+    // `tick` ""quote"" 'q'
+    , } , /// triple
+repeat char[ 42 ] matchKey `it's` ,	lengthOf{ // " ++ [27880; 37322]%N ++ runes_of_ascii "
+u128 trueish  `// not a comment`, match
+chars as MetaDataX {
+00
+    : x_y_z 1
+: trueish, [ 0123456789 ]
+    :	calculatedFrom , [
+    ""CRC32"" ,	""\" ++ [233]%N ++ runes_of_ascii """
+, ""// no comment""
+    , ""it's"" ,	""packet""
+    , 007 ] : Pad
+,
+} ,  } /// triple
+, repeat char[] Logon // `tick` ""quote"" 'q'
+, @leftPad
+    ( '0' //x
+) f32
+    Pad
+    @calculatedFrom(""CRC32"" ) , @lengthOf(
+BodyLength )  options1 @calculatedFrom( ""`tick`"") , A {
+// " ++ [27880; 37322]%N ++ runes_of_ascii "
+//	t
+uint8 charz`u8 x,`
+, falsey x
+`line1
+line2`  , repeat
+    int8 Packet
+    ,zchar[ 1 ] float
+    , }
+, char[ 65535 ] matchKey
+@calculatedFrom( //
+""x y""
+    ) // trailing space 
+, @lengthOf( o//x
+)match	chars
+    as As {	1
+    : f32a
+,
+} , }
+packet
+//	t
+// packet A { u8 x, }
+int
+{ @calculatedFrom( // trailing space 
+""// no comment"" ) @rightPad ( ) @calculatedFrom( """ ++ [233]%N ++ runes_of_ascii "t" ++ [233]%N ++ runes_of_ascii """ ) roots _x
+/// triple
+// trailing space 
+`say ""hi""`	, // `tick` ""quote"" 'q'
+} options { o= ""{,}"" Pad =
+    255 ;  } // " ++ [27880; 37322]%N)).
+Eval vm_compute in ("<<<M360>>>" ++ check (runes_of_ascii "root packet falsey { @lengthOf(Pad	)repeatCount
+    @calculatedFrom( ""1"")
+    ,@calculatedFrom( """"
+)
+@lengthOf(
+stringy ) A
+leftPad , @calculatedFrom(""{,}""
+    ) // " ++ [128512]%N ++ runes_of_ascii " emoji
+f32 calculatedFrom `{ , }` , char[007
+    ] a1,
+repeat char[ 007 ] repeatCount`it's`
+, char[] pack `line1
+line2`, } packet // " ++ [128512]%N ++ runes_of_ascii " emoji
+trueish{ repeat zchar[10 ]options1 `a\`
+,  roots@calculatedFrom(
+""" ++ [128512]%N ++ runes_of_ascii """	) `{ , }`
+,  @calculatedFrom(	""a\""b""	)
+_x _x `
+` , //x
+i8 pack
+    , @lengthOf(  string_ )
+match charz
+as
+repeatCount
+{[
+0123456789 ]
+    : x// a // b
+,255:
+    Foo, [ 0123456789 , ""1"" ] : f32a """" :
+    // " ++ [128512]%N ++ runes_of_ascii " emoji
+    len
+,	[0 ,
+0123456789 ,""a\\"" ,65535]
+    : int ,[""packet"" , ""1"" ,65535 ,  ""a\""b""
+    ,	4294967296
+, ""x y""
+    , ""// no comment"" ]
+: calculatedFrom , // trailing space 
+},
+@calculatedFrom( // " ++ [27880; 37322]%N ++ runes_of_ascii "
+""" ++ [28040; 24687]%N ++ runes_of_ascii """
+)Pad int  `tab	here`,
+} packet // c
+As
+{
+    options1
+,  @lengthOf( int // a // b
+)int8
+options1 @lengthOf( u8x)
+`crlf
+line`, } packet falsey { @rightPad ( ) char[ 3] o
+    , }root
+packet
+    // @lengthOf(
+    _x {@tag( 42
+) trueish
+    @calculatedFrom(
+""" ++ [128512]%N ++ runes_of_ascii """ )
+`
+` , f32a `crlf
+line` , match
+rootA as stringy  { // trailing space 
+[ ""packet""
+    ,
+//
+// " ++ [27880; 37322]%N ++ runes_of_ascii "
+"""" ]:
+    uint8x ,  ""\" ++ [233]%N ++ runes_of_ascii """
+: uint8x , [""\n"" ,1 ]
+    : zchar // packet A { u8 x, }
+, 255:
+// `tick` ""quote"" 'q'
+//
+int ,[ ""packet""]: roots }
+, repeat u16 // c
+x_y_z// a // b
+`// not a comment` , }")).
+Eval vm_compute in ("<<<M1636>>>" ++ check (runes_of_ascii "options{ StringPrefixLenType = u16
+;  ArrayPrefixLenType  =
+    u8
+
+;
+
+FixedStringPadFromLeft
+=
+	true
+    ; FixedStringPadChar
+=
+	' '  ;}packet
+
+    Quote {
+int64
+
+OrderId, 
+char[]
+Ref  , @leftPad  ('0' ) char[5  ] price,
+
+    }
+
+    packet  Heartbeat {
+
+    zchar[  3 ]venue
+,	string
+Flags ,  }
+    packet
+
+    Trade
+
+    {
+
+    repeat	InTag787
+	{ i32
+
+venue,
+char[	5	]sym, repeat InPx98 {
+char[ 11	]
+Qty 
+, Heartbeat,  char[]  price  ,
+	u32 x
+
+,
+	float64
+
+    count
+	,
+
+repeat 
+Quote
+    ,
+    }
+,
+	zchar[
+	7	]
+    Note ,  repeat
+char[ 1
+]
+
+    Tail  ,
+
+    } , 
+repeat
+char[	2 
+] 
+seqNo,	InTail55
+{
+repeat
+Quote
+
+    , string  msgKind ,InPx18
+
+    {
+
+char[]count ,	repeat 
+Quote
+    , uint16 Qty  ,
+    }	,
+char[
+
+4 ]
+
+    seqNo  ,
+
+    repeat
+Heartbeat 
+, repeat string
+	sym, }
+	,
+
+repeat	Quote
+    , 
+Heartbeat ,
+
+    @leftPad	(
+' '
+    )
+char[ 
+10]	OrderId  , } root
+
+packet
+	Fill{Heartbeat, uint32  count
+
+,u8 OrderId
+    ,
+match OrderId
+	as 
+Body
+
+    {  96
+:
+
+    Quote
+, 195:
+
+Trade ,187:  Heartbeat
+	,
+
+    } ,
+    u32 venue @calculatedFrom(
+""CRC32""
+)
+,}
+")).
+Eval vm_compute in ("<<<M1553>>>" ++ check (runes_of_ascii "options {
+    StringPrefixLenType = u64;
     ArrayPrefixLenType = u16;
-    FixedStringPadFromLeft = true;
-    JavaPackage = ""com.example.msg"";
-    GoPackage = ""msg"";
-    GoModule = ""example.com/msg"";
+    FixedStringPadChar = ' ';
 }
-
-MetaData Meta {
-    u32 SeqNum `sequence number`,
-    char[8] Symbol `symbol`,
-    zchar[5] ZSym `z symbol`,
-    string Note,
-    Symbol AltSymbol `alias of symbol`,
-    f64 Price,
-}
-
-packet Inner {
-    u8 a,
-    i16 b,
-    string c,
-}
-
-packet Inner2 {
-    u8 a2,
-    char[3] c2,
-}
-
 packet Logon {
-    u8 x,
-    string user,
-    repeat u16 codes,
+    i32 msgKind,
+    repeat InOrderid65 {
+        u8 pad0,
+    },
+    i8 tag7,
+    @leftPad(' ') char[12] x,
 }
+packet Leg {
+    char[] f1,
+    repeat char[5] Px,
+    InQty34 {
+        repeat char[6] Qty,
+        char[7] seqNo,
+        string count,
+    },
+    Logon,
+}
+packet Party {
+    @leftPad('0') char[10] OrderId,
+    string Tail,
+}
+packet Fill {
+    zchar[5] venue,
+    zchar[3] clOrdID,
+    InRef95 {
+        InLastpx25 {
+            u8 pad0,
+        },
+        float64 OrderId,
+        i32 f1,
+        float32 x,
+        char[] seqNo,
+    },
+    repeat string seqNo,
+}
+root packet Heartbeat {
+    repeat Leg,
+    u32 seqNo,
+    u16 tag7,
+    u32 Flags @lengthOf(Body),
+    match tag7 as Body {
+        [195, 75] : Party,
+        171 : Fill,
+        78 : Logon,
+        142 : Leg,
+    },
+    u32 Note @calculatedFrom(""CRC32""),
+}
+")).
+Eval vm_compute in ("<<<M1823>>>" ++ check (runes_of_ascii "// top
+options {
+    // c1a
+    // c1b
+    StringPrefixLenType = u8;
+    ArrayPrefixLenType = u32;
+    // c9
+}
+
+packet Quote {
+    // c13
+    u32 Ref,// c16a
+    // c16b
+    InNote74 {
+        // c18
+        u8 pad0,// c21
+    },
+}
+
+packet Ack {
+    repeat string OrderId,// c31
+}// c32
 
 packet Logout {
-    u16 reason,
-}
+    // c35
+    zchar[7] venue,// c40a
+    // c40b
+    char[12] Px,
+    // c45
+    string count,
+    // c48
+    char[] Tail,// c51
+    char[] Qty,// c54
+    Quote,// c56
+}// c57
 
-packet Empty {
+root packet Trade {
+    // c61a
+    // c61b
+    zchar[2] price,
+    // c66
+    u32 x,
+    u32 lastPx @lengthOf(Body),// c75a
+    // c75b
+    match x as Body {
+        // c80
+        148 : Ack,
+        // c84
+        171 : Quote,
+        15 : Logout,
+        // c92
+    },// c94
 }
-
-root packet Msg {
-    u8 su8,
-    uint8 luint8,
-    u16 su16,
-    uint16 luint16,
-    u32 su32,
-    uint32 luint32,
-    u64 su64,
-    uint64 luint64,
-    i8 si8,
-    int8 lint8,
-    i16 si16,
-    int16 lint16,
-    i32 si32,
-    int32 lint32,
-    i64 si64,
-    int64 lint64,
-    f32 sf32,
-    float32 lfloat32,
-    f64 sf64,
-    float64 lfloat64,
-    char[6] fsplain,
-    @leftPad('0')
-    char[4] fs0,
-    @rightPad('0')
-    char[5] fs1,
-    @leftPad(' ')
-    char[6] fs2,
-    @rightPad(' ')
-    char[7] fs3,
-    @leftPad('\x00')
-    char[8] fs4,
-    @rightPad('\x00')
-    char[9] fs5,
-    @leftPad()
-    char[10] fs6,
-    @rightPad()
-    char[11] fs7,
-    zchar[7] fz,
-    @leftPad('0')
-    zchar[3] fzl0,
-    string s1 `doc`,
-    char[] s2,
-    Inner,
-    Sub {
-        u8 q,
-        string w,
-        Deep {
-            u16 z,
-            repeat i32 zs,
-        },
-    },
-    repeat u8 ru8,
-    repeat u16 ru16,
-    repeat u32 ru32,
-    repeat u64 ru64,
-    repeat i8 ri8,
-    repeat i16 ri16,
-    repeat i32 ri32,
-    repeat i64 ri64,
-    repeat f32 rf32,
-    repeat f64 rf64,
-    repeat string rstr,
-    repeat char[] rstr2,
-    repeat char[3] rfs,
-    repeat zchar[3] rfz,
-    repeat Inner2,
-    repeat Grp {
-        u8 k,
-        char[2] v,
-    },
-    SeqNum,
-    SeqNum seq2,
-    repeat SeqNum seqs,
-    Symbol,
-    AltSymbol alt,
-    ZSym,
-    Note,
-    repeat Symbol syms,
-    Price px,
-    u16 MsgType,
-    u32 BodyLen @lengthOf(Body),
-    match MsgType as Body {
-        1 : Logon,
-        [2, 3] : Logout,
-        7 : Logon,
-        9 : Empty,
-    },
-    u32 Checksum @calculatedFrom(""CRC32""),
-}")).
-Eval vm_compute in ("<<<M3771>>>" ++ check (runes_of_ascii "MetaData float {
-    lengthOf u128 `tab	here`,
-    u x,
-    metadata crc `line1
-    line2`,
-}
-
-root packet trueish {
-    @leftPad('0')
-    repeat zchar[10] lengthOf `u8 x,`,
-    @leftPad('\x00')
-    zchar[255] tag,
-    @leftPad()
-    u128 trueish,
-    chars @lengthOf(i64_) `it's`,
-    @tag(10)
-    zchar[007] asx,
-    char[1] zchar,
+// c95")).
+Eval vm_compute in ("<<<M274>>>" ++ check (runes_of_ascii "packet  int  { @calculatedFrom( """ ++ [28040; 24687]%N ++ runes_of_ascii """  )
+@tag(
     // `tick` ""quote"" 'q'
-    // trailing space 
-    @tag(7)
-    @calculatedFrom(""packet"")
-    match f32a as uint8x {
-        00 : Header,
-        007 : charz,
-        [255, """ ++ [233]%N ++ runes_of_ascii "t" ++ [233]%N ++ runes_of_ascii """] : rootA,
-        // `tick` ""quote"" 'q'
-        ""it's"" : lengthOf,
-        ""x y"" : pack,
-        """ ++ [28040; 24687]%N ++ runes_of_ascii """ : _x,
-    },
-    repeat Header {
-        char[7] i8i8,
-        char msg_type @lengthOf(pack) `line1
-        line2`,
-        // packet A { u8 x, }
-        // a // b
-        uint8 crc @lengthOf(zchar) `line1
-        line2`,
-    },
-}
-
-packet Foo {
-}
-
-packet Foo {
-    zchar[0123456789] packetx @calculatedFrom(""packet"") `doc`,
-    zchar @calculatedFrom(""\n"") `
-    `,
-    @leftPad('\x00')
-    @tag(65535)
-    char[0] metadata @calculatedFrom(""a\""b""),
-    repeat lengthOf {
-        lengthOf `" ++ [233]%N ++ runes_of_ascii "`,
-    },
-    As,
+    007
+    ) options1 @calculatedFrom( ""CRC32"" ) `tab	here`
+, @lengthOf(
+As )
+    x x_y_z , repeat x
+{ i64 Z9_,
+zchar[
+    // c
+    007 ] body
+//	t
+// a // b
+@lengthOf( uint8x
+    )
+    // c
+    , f64  metadata @calculatedFrom( ""`tick`""	)
+    `tab	here`, }	, } packet msg_type {
+    repeat
+// trailing space 
+// c
+zchar[255 ]A, int64 f32a ,// " ++ [128512]%N ++ runes_of_ascii " emoji
+Pad
+@lengthOf( falsey
+)
+,
+match
+    falsey
+as
+x_y_z {
+7: // `tick` ""quote"" 'q'
+len
+,}
+/// triple
+// c
+, string // " ++ [27880; 37322]%N ++ runes_of_ascii "
+uint8x
+    `a\`,string rootA
+//x
+// a // b
+@lengthOf( int	) ,	}	root
+/// triple
+// `tick` ""quote"" 'q'
+packet pack { crc i64_ , }
+")).
+Eval vm_compute in ("<<<M13>>>" ++ check (runes_of_ascii "
+packet msg_type
+    // packet A { u8 x, }
+    {//	t
+string	packetx @lengthOf( charz )	, @calculatedFrom( """"  )
+repeat char[ 0123456789
+    ]
+    // c
+    int `it's` ,
+    @rightPad (// packet A { u8 x, }
+)
+@tag( 42 )
+    @calculatedFrom( ""`tick`""
+) repeat
+uint16
+falsey  `" ++ [233]%N ++ runes_of_ascii "`
+, i32 Foo , @tag(7 ) u64
+chars@lengthOf(  BodyLength ), i16
+    Z9_@lengthOf(/// triple
+a1 ) ,@lengthOf(leftPad ) lengthOf body ``	, @tag(
+    007 )
+char[
+    10 //x
+]
+_x
+// a // b
+// " ++ [27880; 37322]%N ++ runes_of_ascii "
+@lengthOf(
+    roots )	`
+` , // a // b
+@calculatedFrom(""a\\"" )
+    float64 //	t
+rootA`doc` , string T @calculatedFrom( """" ) , }")).
+Eval vm_compute in ("<<<M2029>>>" ++ check (runes_of_ascii "options {
 }
 
 packet BodyLength {
-    //x
-    @calculatedFrom(""a\""b"")
-    @lengthOf(x)
-    @tag(00)
-    Packet zchar ``,
-    @tag(0123456789)
-    repeat char[255] x `it's`,// a // b
-    u {
-        match BodyLength as tag {
-            3 : matchKey,
+    i8i8 @lengthOf(trueish),
+    repeat body,// " ++ [27880; 37322]%N ++ runes_of_ascii "
+    @calculatedFrom(""1"")
+    repeat int64 i64_,
+    @tag(0)
+    MetaDataX msg_type `" ++ [28040; 24687; 31867; 22411]%N ++ runes_of_ascii "`,
+    Pad {
+        Header @calculatedFrom(""""),
+    },
+    @tag(42)
+    u8 asx `u8 x,`,
+    @tag(3)
+    repeat string_ {
+        metadata {
+            // @lengthOf(
+            char[0123456789] crc,
+            Packet `" ++ [28040; 24687; 31867; 22411]%N ++ runes_of_ascii "`,//x
+            options1 `tab	here`,
         },
+        repeat Packet,
     },
-    @tag(0123456789)
-    // " ++ [128512]%N ++ runes_of_ascii " emoji
-    char asx `line1
-    line2`,
-    @lengthOf(chars)
-    @calculatedFrom(""a	b"")
-    f64 len,
-    match int as BodyLength {
-        1 : Header,
-        [0] : tag,
-        """ ++ [28040; 24687]%N ++ runes_of_ascii """ : asx,
-    },
-    @leftPad(' ')
-    metadata `crlf
-    line`,
-    // `tick` ""quote"" 'q'
-    // trailing space 
-    len @lengthOf(metadata),
-    zchar[65535] A @lengthOf(trueish),
-    @leftPad('0')
-    repeatCount Z9_ `" ++ [233]%N ++ runes_of_ascii "`,
+}
+
+//x
+options {
+    x = char[10];
 }")).
-Eval vm_compute in ("<<<M96>>>" ++ check (runes_of_ascii "root packet Logon {
-    zchar[ 65535
-]
-uint8x ,@leftPad ()repeat f32
-    Packet , @leftPad ( ' '
-//x
-//	t
-) match i8i8 as  body// a // b
-{ 65535 : MetaDataX ,
-    007
-    : Packet
+Eval vm_compute in ("<<<M1957>>>" ++ check (runes_of_ascii "options {
+    LittleEndian = true;
+    StringPrefixLenType = u16;
+    ArrayPrefixLenType = u64;
 }
-,  @calculatedFrom(""packet"")uint8x ,Foo@lengthOf( asx
-    //	t
-    )
-, i64 int , //
-@leftPad ( ' ' ) repeat rootA {
-int32 zchar
-,match stringy  as MetaDataX
-    { [ """ ++ [28040; 24687]%N ++ runes_of_ascii """  , 10 ,42 , ""a\""b"" ,	42 ,7]: msg_type ,[
-    42 ]	:stringy , ""a\\"" :
-Header  255 : calculatedFrom
-    //	t
-    ,
-// a // b
-/// triple
-[ 007// " ++ [27880; 37322]%N ++ runes_of_ascii "
-]
-    :
-/// triple
-//x
-MetaDataX , ""a\""b""
-    //	t
-    ://
-stringy // " ++ [128512]%N ++ runes_of_ascii " emoji
-, } , char[ 007  ] int @lengthOf(
-    o
-    )`" ++ [233]%N ++ runes_of_ascii "` // `tick` ""quote"" 'q'
-,
-// trailing space 
-//x
-}	, @leftPad (
-//
-// @lengthOf(
-)@lengthOf(
-    metadata )match
-asx
-as leftPad { ""x y""
-:
-matchKey // packet A { u8 x, }
-} // " ++ [27880; 37322]%N ++ runes_of_ascii "
-,
-    repeat  leftPad `say ""hi""` ,char[//	t
-65535// c
-] // a // b
-Packet , } root packet // a // b
-x_y_z { match uint8x as As
-    { [0123456789 ] : T
-    65535
-    :	x_y_z ""\n""
-    //
-    : u,
-    4294967296 :  Packet	[ 65535  ]: T ,
-    255 : uint8x },int32 Packet  `tab	here` , @calculatedFrom( """"
-) @calculatedFrom(
-    ""a\\"" ) u64 repeatCount
-    @calculatedFrom( """" ) , Header
-zchar
-`doc` ,
-match
-_x as	metadata // " ++ [128512]%N ++ runes_of_ascii " emoji
-{ [ 255 ,""1""	] : Logon [
-""" ++ [233]%N ++ runes_of_ascii "t" ++ [233]%N ++ runes_of_ascii """ ,00, 65535
-    ,	7 , 42	, 00	]
-:
-packetx , 4294967296 : stringy
-    //	t
-    ,}, char[00
-    ] tag `doc` ,@lengthOf(
-int )
-string u
-    ,  @tag( 007 ) int16 stringy , float64
-    crc, @calculatedFrom( ""x y""  ) repeat u16 f32a ,}options  {	u128= ""CRC32"" options1 = // packet A { u8 x, }
-false u8x= ""`tick`"";}")).
-Eval vm_compute in ("<<<M606>>>" ++ check (runes_of_ascii "packet i8i8 { @leftPad
-( ) u body `
-`
-    , repeat char[] Z9_  ,	repeat char[1	]	int ,
-roots {  _x
-// a // b
-//
-@calculatedFrom(""\n"" ) ,
-int //x
-{ float
-    @lengthOf(packetx )  ,} ,	int8 falsey
-`a\`, uint16  x_y_z@lengthOf(u128 )
-`two words`,} , @tag( 007 ) matchKey
-{ _x
-    , } , @leftPad ( )@lengthOf( //	t
-chars
-) i64_ @calculatedFrom(""`tick`"" )
-    `" ++ [233]%N ++ runes_of_ascii "`, } packet asx {
-    i32
-rootA @calculatedFrom( ""a\""b"" )`{ , }` , } packet f32a {
-    @leftPad
-(
-)
-// a // b
-//	t
-@calculatedFrom( ""// no comment"" ) repeat zchar[ 007 ] string_ `// not a comment` , match //	t
-Header as pack { [
-""// no comment"", ""a\""b"" ]
-: x,
-    // packet A { u8 x, }
-    [ ""abc"" , //	t
-""\n""
-,""" ++ [233]%N ++ runes_of_ascii "t" ++ [233]%N ++ runes_of_ascii """ ,
-00  , 1	, 42
-] : pack// c
-,	[ 255 , ""a	b""
-    ] : i64_, }
-, options1 roots , int16
-o , @rightPad
-( ' ')char[] tag
-`// not a comment`	, }
-packet roots { uint64 stringy @calculatedFrom( ""1"" ) `two words` ,
-    u8x @calculatedFrom( // " ++ [128512]%N ++ runes_of_ascii " emoji
-""1"" ) `tab	here`, repeat
-    o
-{ charz {match metadata as charz { ""a\""b"": u,[10, ""packet"",
-""// no comment"" ,	7,  1 ,
-    42 ] : lengthOf , ""abc""
-:Packet """ ++ [233]%N ++ runes_of_ascii "t" ++ [233]%N ++ runes_of_ascii """ : crc
-    ,1
-:
-x
-, //	t
-[ """ ++ [28040; 24687]%N ++ runes_of_ascii """
-,""// no comment"" ,
-1 , 0123456789,""\n"" // trailing space 
-,
-    ""1"" ,""" ++ [233]%N ++ runes_of_ascii "t" ++ [233]%N ++ runes_of_ascii """ ] :
-    //x
-    u } , repeat float32
-    As ,// trailing space 
-} ,}
-    //
-    ,
-    //x
-    repeat	char[ 1 //x
-]  x_y_z`line1
-line2`
-    /// triple
-    ,
-// trailing space 
-//x
+
+packet Fill {
 }
+
+packet Logon {
+    repeat char[3] Tail,
+    zchar[6] venue,
+    repeat string Side2,
+}
+
+root packet Cancel {
+    char[] Flags,
+    char[] OrderId,
+    zchar[6] msgKind,
+    Fill,
+    char[] Acct,
+    u8 f1,
+    match f1 as Body {
+        188 : Fill,
+        5 : Logon,
+    },
+    u32 clOrdID @calculatedFrom(""CR\
+    C32""),
+}")).
+Eval vm_compute in ("<<<M1116>>>" ++ check (runes_of_ascii "// top
+options // c0
+{ // c1
+charz // c2
+= // c3
+f64 // c4
+; // c5
+metadata // c6
+= // c7
+7 // c8
+; // c9
+} // c10
+options // c11
+{ // c12
+u128 // c13
+= // c14
+10 // c15
+options1 // c16
+= // c17
+true // c18
+; // c19
+zchar // c20
+= // c21
+uint16 // c22
+; // c23
+lengthOf // c24
+= // c25
+true // c26
+; // c27
+} // c28
+options // c29
+{ // c30
+len // c31
+= // c32
+1 // c33
+} // c34
 ")).
-Eval vm_compute in ("<<<M549>>>" ++ check (runes_of_ascii "packet repeatCount
-    { i64 falsey	,char[ 65535
-]
-calculatedFrom  @lengthOf( calculatedFrom
-),int32
-    repeatCount ,  @tag( 4294967296 ) repeat matchKey { repeat
-int64 rootA , match Packet as BodyLength
-    {[ 10]:
-repeatCount
-,""a\\""
-    :	msg_type,  [ ""CRC32"",
-    00
-] : calculatedFrom , 7
-    :
-lengthOf
-, // " ++ [128512]%N ++ runes_of_ascii " emoji
-42 : Header // packet A { u8 x, }
-, [ ""it's"" , ""\n""	,  65535
-, ""`tick`"" ,0 , 65535
-, ""{,}"",255 ]://
-T ,
-} ,} , @calculatedFrom(
-""{,}""
-) match asx
-as metadata
-    {
-3
-: Z9_, ""`tick`""
-:
-    // @lengthOf(
-    string_
-} // `tick` ""quote"" 'q'
-,@rightPad ( '0' ) int8 u128 , @tag( // `tick` ""quote"" 'q'
-3 ) repeat  i8 x_y_z `it's`,
-    @lengthOf(chars )  @calculatedFrom(//
-""" ++ [28040; 24687]%N ++ runes_of_ascii """)string float	, }
-    packet zchar
-    {match uint8x
-    //	t
-    as f32a
-    {[ ""`tick`"" , ""CRC32"" ]
-: repeatCount ,[
-    00
-, ""x y"", 255 , 255 ,
-    1, 7 ,	007 ,
-    7
-]
-    :	tag, ""{,}"": leftPad
-    ,  007 : len , //x
-},
-@calculatedFrom( ""CRC32""  ) @lengthOf(
-x )@calculatedFrom(""\" ++ [233]%N ++ runes_of_ascii """) char[
-65535] string_ , }options { }
-    MetaData u128
-    // c
-    {
-// c
-/// triple
-trueish tag
-// c
-// a // b
-, packetx i8i8 , f64 x_y_z//
-, //x
-trueish u128 , x Header `say ""hi""` , zchar[ 0
-    // `tick` ""quote"" 'q'
-    ] A, } MetaData i64_
-    { }")).
-Eval vm_compute in ("<<<M780>>>" ++ check (runes_of_ascii "root packet
-Logon { zchar[
-    00 ]roots@calculatedFrom(
-    ""a\""b"" ) ,
-}MetaData int
-//	t
-// @lengthOf(
-{
-float
-roots , char u8x `// not a comment` , uint64 _x , // @lengthOf(
-u128 chars
-// @lengthOf(
-//
-`
-`, i16  leftPad `" ++ [28040; 24687; 31867; 22411]%N ++ runes_of_ascii "` ,
-u8
-string_  ,
-    // @lengthOf(
-    }packet trueish
-    { /// triple
-asx
-    //	t
-    {
-msg_type  {	repeat string A	`" ++ [233]%N ++ runes_of_ascii "`, }
-,
-    } , @tag( 65535
-) Packet
-_x `line1
-line2`,
-// packet A { u8 x, }
-// a // b
-repeat uint32 // @lengthOf(
-x_y_z// a // b
-`two words` // c
-,@calculatedFrom( ""packet""
-    )i64_
-@lengthOf( Logon
-) ,
-    @rightPad (	'\x00' ) match
-msg_type as
-    Foo
-{ [  ""{,}"" ,	""a	b"" , 10
-, ""abc"" ]
-    :
-    u128 ,""// no comment"" :
-lengthOf, ""a\""b"" : len// " ++ [27880; 37322]%N ++ runes_of_ascii "
-,	""\n"" : x_y_z } ,
-    repeat int32
-asx `say ""hi""` ,
-    @rightPad ( ) @tag(
-00 ) @rightPad ( ' ' ) char[
-    10 ]crc
-@lengthOf(
-    // packet A { u8 x, }
-    metadata ) `
-`
-    ,
-    @lengthOf(
-msg_type	) char[] charz
-@lengthOf( //x
-Pad
-) `crlf
-line` , zchar[ 65535 ]
-    a1	@calculatedFrom(
-""a\\"" )  ,char[ 42
-    ]
-//x
-// " ++ [128512]%N ++ runes_of_ascii " emoji
-charz
-, }
-root packet BodyLength {@tag(	3
-    )
-@lengthOf(Header ) len @calculatedFrom(
-""""
-) `crlf
-line` ,}")).
-Eval vm_compute in ("<<<M994>>>" ++ check (runes_of_ascii "// c
-packet options1 {	roots
-    // " ++ [128512]%N ++ runes_of_ascii " emoji
-    @lengthOf( zchar ) , @calculatedFrom(
-""" ++ [128512]%N ++ runes_of_ascii """
-)uint64 //
-matchKey
-, @tag(
-42 ) i64
-    // trailing space 
-    Logon@lengthOf(
-i64_  )// `tick` ""quote"" 'q'
-`doc` //x
-, @calculatedFrom(""a\""b""
-    ) A , @calculatedFrom(
-    ""it's"")repeat Pad``
-, @tag( 7 ) zchar[ 00 ]  trueish`" ++ [233]%N ++ runes_of_ascii "`, repeat options1 {
-repeatCount
-{
-Header ,
-char[
-// " ++ [128512]%N ++ runes_of_ascii " emoji
-// packet A { u8 x, }
-7 ]
-Logon
-`a\` , /// triple
-}
-,}, char[1
-] int
-`doc` , // a // b
-@calculatedFrom(""""
-)@calculatedFrom(
-    ""a	b""
-)
-@lengthOf( packetx )
-msg_type// trailing space 
-{ string calculatedFrom `{ , }`
-    // `tick` ""quote"" 'q'
-    , zchar  @calculatedFrom(""" ++ [28040; 24687]%N ++ runes_of_ascii """
-) , uint8
-// " ++ [128512]%N ++ runes_of_ascii " emoji
-// trailing space 
-o `doc` // " ++ [128512]%N ++ runes_of_ascii " emoji
-, f32a ,}  , //x
-} MetaData
-    Z9_ {
-char A//	t
-, }packet // trailing space 
-options1 {
-msg_type { chars ,	zchar[
-3 ] crc
-    `doc`, } ,
-@lengthOf( crc) @tag(10) @lengthOf(asx
-    )zchar[ 10 ]
-Header @calculatedFrom( ""a\\"" ) `u8 x,` ,
-} packet
-int
-{ string x_y_z , @calculatedFrom( ""\" ++ [233]%N ++ runes_of_ascii """)	match pack as
-    roots { 65535 :
-    options1 , // @lengthOf(
-}
-,
-    }
-")).
-Eval vm_compute in ("<<<M1345>>>" ++ check (runes_of_ascii "
-MetaData u128 { } packet string_
-{ @lengthOf(	i64_
-)
-    /// triple
-    repeat u16
-    a1 , falsey	msg_type `doc`//
-,@leftPad('\x00' )
-u64 i64_
+Eval vm_compute in ("<<<M121>>>" ++ check (runes_of_ascii "root
+    packet stringy{ // trailing space 
 @calculatedFrom(
-    //x
-    """ ++ [28040; 24687]%N ++ runes_of_ascii """ )
-,
-    match
-    body as len {""" ++ [128512]%N ++ runes_of_ascii """ :charz
-    , //x
-} , BodyLength
-    `two words` // `tick` ""quote"" 'q'
-,  @leftPad ( '0'
-) repeat char
-o
-,
-@tag( 42 // `tick` ""quote"" 'q'
-) @tag( 1 )@calculatedFrom(""{,}""//
-)
-    u64 matchKey
-@lengthOf( /// triple
-charz)
-    `// not a comment`
-    ,	@calculatedFrom( ""1"")u8
-A @lengthOf(
-x_y_z )
-    ,	@calculatedFrom( // a // b
-""// no comment"" ) @lengthOf( falsey )	@calculatedFrom(""\" ++ [233]%N ++ runes_of_ascii """) match tag as f32a { [ ""\n""	, // " ++ [27880; 37322]%N ++ runes_of_ascii "
-""x y"" ,
-4294967296  , 00 , ""\n"" , 255
-]:
-    float ,
-[ ""\" ++ [233]%N ++ runes_of_ascii """
-] :packetx ,
-    // " ++ [27880; 37322]%N ++ runes_of_ascii "
-    0 :
-Z9_
-    , [
-""" ++ [233]%N ++ runes_of_ascii "t" ++ [233]%N ++ runes_of_ascii """
-]// `tick` ""quote"" 'q'
-:	rootA
-    ,} , } options{ f32a =
-char[ 00 ]
-    // `tick` ""quote"" 'q'
-    ;
-tag =
-4294967296 ; rootA=""{,}"" } options
-    {
-//	t
-// `tick` ""quote"" 'q'
-msg_type =""\n"" ; f32a
-=
-""// no comment""
-//x
-// `tick` ""quote"" 'q'
-; falsey = 65535 ;}
+""" ++ [28040; 24687]%N ++ runes_of_ascii """ ) repeat
+Foo {float64	i64_
+    @lengthOf(Z9_ ),	}
+    ,	repeat // `tick` ""quote"" 'q'
+lengthOf {
+falsey
+    { uint16 len//x
+,	} , Packet uint8x `a\`,} , @calculatedFrom(""" ++ [128512]%N ++ runes_of_ascii """)  string MetaDataX	`" ++ [233]%N ++ runes_of_ascii "`  ,} packet
+chars { @leftPad ( '0'
+    )i64 trueish
+@lengthOf( Z9_  )
+    ,
+}
 ")).
-Eval vm_compute in ("<<<M4178>>>" ++ check (runes_of_ascii "
+Eval vm_compute in ("<<<M40>>>" ++ check (runes_of_ascii "packet// " ++ [128512]%N ++ runes_of_ascii " emoji
+charz
+    {
+repeat options1 {char x_y_z
+/// triple
+//x
+, T	{ string_ @calculatedFrom(""1"") , } ,
+f64
+    crc ,
+u64 A
+// trailing space 
+/// triple
+@calculatedFrom(""CRC32""	), } ,} MetaData MetaDataX //	t
+{
+}
+root packet
+u128{ string_  {
+    repeat pack {
+As matchKey , } ,} ,
+}
+")).
+Eval vm_compute in ("<<<M662>>>" ++ check (runes_of_ascii "root packet tag { }  packet MetaDataX{char[007	]
+// c
+/// triple
+asx  @calculatedFrom( ""a\""b""
+) `say ""hi""`// " ++ [27880; 37322]%N ++ runes_of_ascii "
+,  @tag(4294967296 )
+    char[1//x
+] packetx @calculatedFrom(@lengthOf""a\""b""
+    ) ,
+// " ++ [128512]%N ++ runes_of_ascii " emoji
+// a // b
+@calculatedFrom(""" ++ [233]%N ++ runes_of_ascii "t" ++ [233]%N ++ runes_of_ascii """  ) repeat pack // " ++ [27880; 37322]%N ++ runes_of_ascii "
+,
+    } // c")).
+Eval vm_compute in ("<<<M1713>>>" ++ check (runes_of_ascii "
 
   packet
-    // `tick` ""quote"" 'q'
-	  //x
-		uint8x 
-{
-zchar[	007	] 
-Header
-    @calculatedFrom( ""a	b"" 
-) ,
-}
-	packet
 
-    i64_
-    {
+    Sub  { u8
+a	, @calculatedFrom(
+    ""CRC16""
 
-    @lengthOf(  crc  )  /// triple
-string
-	metadata
-`
-`	//	t
-, 	 // trailing space 
-	uint8x 	 // " ++ [128512]%N ++ runes_of_ascii " emoji
+) u16	SubSum
+	,
 
-{
-    repeat
+    }root  packet
+
+    Frame
+    { 
+u16
+	MsgType
+
+    ,
+
+u16
+BodyLen @lengthOf( Body )  ,
+
+    Sub
+	Body 
+,  string note,
+
+    @calculatedFrom(""CRC16"") u16 Checksum,  u8 
+tail	,
+}")).
+Eval vm_compute in ("<<<M525>>>" ++ check (runes_of_ascii "root packet tag { }  packet MetaDataX{char[ ]	007
+// c
+/// triple
+asx  @calculatedFrom( ""a\""b""
+) `say ""hi""`// " ++ [27880; 37322]%N ++ runes_of_ascii "
+,  @tag(4294967296 )
+    char[1//x
+] packetx @calculatedFrom(""a\""b""
+    ) ,
+// " ++ [128512]%N ++ runes_of_ascii " emoji
+// a // b
+@calculatedFrom(""" ++ [233]%N ++ runes_of_ascii "t" ++ [233]%N ++ runes_of_ascii """  ) repeat pack // " ++ [27880; 37322]%N ++ runes_of_ascii "
+,
+    } // c")).
+Eval vm_compute in ("<<<M561>>>" ++ check (runes_of_ascii "root packet tag { }  packet MetaDataX{char[007	]
+// c
+/// triple
+asx  @calculatedFrom( ""a\""b""
+) `say ""hi""`// " ++ [27880; 37322]%N ++ runes_of_ascii "
+(  @tag(4294967296 )
+    char[1//x
+] packetx @calculatedFrom(""a\""b""
+    ) ,
+// " ++ [128512]%N ++ runes_of_ascii " emoji
+// a // b
+@calculatedFrom(""" ++ [233]%N ++ runes_of_ascii "t" ++ [233]%N ++ runes_of_ascii """  ) repeat pack // " ++ [27880; 37322]%N ++ runes_of_ascii "
+,
+    } // c")).
+Eval vm_compute in ("<<<M1581>>>" ++ check (runes_of_ascii "packet
+Sub
+{ u8
+    a , @calculatedFrom( 
+""CRC16"")
 
     u16
-    string_ ,
-    }  , 	 // `tick` ""quote"" 'q'
-	packetx  {
-zchar[
-0123456789
-]
-calculatedFrom	@calculatedFrom( """ ++ [28040; 24687]%N ++ runes_of_ascii """) `crlf
-line`  ,
-tag {	zchar[ 
-007 ]
-	tag 
-@calculatedFrom(
 
-    ""1""	)
-    ,
-
-string u , 
-repeat  A  T, 
-roots
-
-    @lengthOf(
-Logon
-	)
-,
-	// `tick` ""quote"" 'q'
-
-}, u8x `` ,int64
-
-    metadata `tab	here`
-
-, }
-	,}
-    packet
-	rootA	{
-@lengthOf( string_ ) Header
-    A
-    `doc`
-
-    , 
-match
-stringy
-as 
-x
-    { // c
-    0123456789 :
-metadata	, 0: rootA
-
-, 42:
-
-A ,
-	[
-00 ,
-    ""abc""
-
-    ] :
-
-T 4294967296 :  a1 
-, // @lengthOf(
-    	} , 
-@rightPad	(
-	'0'
-)	@tag( 4294967296
-
-    )
-	@tag( 00
-
-    )
-char[] Foo  @calculatedFrom( ""1"" ) `crlf
-line`
-, }")).
-Eval vm_compute in ("<<<M1237>>>" ++ check (runes_of_ascii "// a // b
-options
-    { i64_ //
-=
-    false ; BodyLength
-    =
-    10	;} packet msg_type { @lengthOf( msg_type) match rootA as
-    tag { ""1""	:// `tick` ""quote"" 'q'
-u8x ,[""x y""
-    ,// " ++ [128512]%N ++ runes_of_ascii " emoji
-""" ++ [233]%N ++ runes_of_ascii "t" ++ [233]%N ++ runes_of_ascii """, 0123456789
-, 007 , 7, 255 ,	7 , 65535]:matchKey,4294967296 :chars""packet"" : charz
-    ,
-    ""// no comment"": // a // b
-i64_ ,
-10 : MetaDataX  ,} , @lengthOf( metadata )
-MetaDataX@calculatedFrom(""" ++ [233]%N ++ runes_of_ascii "t" ++ [233]%N ++ runes_of_ascii """ ) `
-` , f32a{
-matchKey, } , zchar[10 ]  _x
-`line1
-line2` ,metadata crc ,	@lengthOf( body) char[
-3  ]string_ ,repeat T , trueish// @lengthOf(
-i8i8 ,f32
-Header`
-`,	@leftPad	(' ' ) char[00 ]o , } packet zchar { @lengthOf( Packet
-) @lengthOf( falsey)// " ++ [128512]%N ++ runes_of_ascii " emoji
-repeat rootA `doc`
-    , @leftPad // " ++ [128512]%N ++ runes_of_ascii " emoji
-( ' '
-// @lengthOf(
-// @lengthOf(
-) char[] float @lengthOf(
-roots )
-,
-    }root packet //x
-lengthOf{
-rootA// trailing space 
-@calculatedFrom(
-    ""it's"" ) ,
-} root
-    packet repeatCount// a // b
-{ }
-")).
-Eval vm_compute in ("<<<M1147>>>" ++ check (runes_of_ascii "
-root packet options1
-    { uint64	x ,	@lengthOf( i8i8
-    ) repeat
-char[ 0] len, crc `u8 x,`, As
-@calculatedFrom(""a	b""
-/// triple
-// @lengthOf(
-), @rightPad () @calculatedFrom( ""1""//x
-) string charz @calculatedFrom(
-""" ++ [233]%N ++ runes_of_ascii "t" ++ [233]%N ++ runes_of_ascii """	)`two words` , @tag( 00 )f32a
-//x
-//	t
-{ char[] trueish@lengthOf( //	t
-MetaDataX ) `// not a comment`
-,repeat	int16 float
-,
-body `u8 x,` , } //x
-, @calculatedFrom( // a // b
-""x y""  )
-//x
-//
-match Header as falsey { 7  :f32a , } ,  @tag( 00 )	match zchar
-as
-    Logon {
-[7
-, 7 ,
-    ""`tick`"",
-""\" ++ [233]%N ++ runes_of_ascii """ , 255] : A
-, [ 1 ]  :Z9_ [ ""1"" , 1 ,
-    ""`tick`"" ,""a	b""
-,
-//	t
-// a // b
-""\" ++ [233]%N ++ runes_of_ascii """ , """ ++ [28040; 24687]%N ++ runes_of_ascii """ ]	:
-Pad [ ""1"" // " ++ [128512]%N ++ runes_of_ascii " emoji
-, """" ,
-1	,
-00  ,""" ++ [128512]%N ++ runes_of_ascii """ , ""1"" , 1 , ""{,}"" ]
-: Z9_ ,10:
-A,
-    """ ++ [233]%N ++ runes_of_ascii "t" ++ [233]%N ++ runes_of_ascii """
-    : u8x
-    // " ++ [128512]%N ++ runes_of_ascii " emoji
-    , } , repeat int64 metadata ,
-    @rightPad (
-'0' )match tag as BodyLength
-    {""CRC32"" : asx , 10:
-    metadata , }
-    ,}")).
-Eval vm_compute in ("<<<M553>>>" ++ check (runes_of_ascii "packet
-    A { calculatedFrom
-    //
-    @lengthOf(//
-zchar ) `say ""hi""`	, @calculatedFrom(  ""{,}""
-)
-repeat
-    u8x // `tick` ""quote"" 'q'
-uint8x `u8 x,` ,
-    match
-//
-// " ++ [128512]%N ++ runes_of_ascii " emoji
-o as matchKey {
-[ 3 ,""""]: T ,//
-""{,}""// @lengthOf(
-:
-// a // b
-// packet A { u8 x, }
-calculatedFrom } ,
-    repeat char[ 255	] u
-,char[]Packet ,repeat int64
-packetx// trailing space 
-,  @leftPad( '\x00'
-)@calculatedFrom( """" ) zchar { // trailing space 
-f32
-    //
-    zchar `" ++ [28040; 24687; 31867; 22411]%N ++ runes_of_ascii "`,match
-u128 as
-    options1
-{ [""abc"",10 ,
-    65535 , 0 , ""\n"" ,""" ++ [128512]%N ++ runes_of_ascii """ ,
-0123456789 ]
-    : // a // b
-chars
-, 00 :
-As
-, ""a	b""
-    : packetx, 10: a1, // packet A { u8 x, }
-} , },
-    float64 calculatedFrom @lengthOf( //
-packetx
-    ) ,char[ //x
-00]
-// " ++ [128512]%N ++ runes_of_ascii " emoji
-//
-string_ `
-` , @calculatedFrom( ""it's""
-    )@leftPad
-()
-    f32 BodyLength , }
-// " ++ [27880; 37322]%N ++ runes_of_ascii "
-")).
-Eval vm_compute in ("<<<M798>>>" ++ check (runes_of_ascii "
-options
-    { MetaDataX = zchar[
-10 ]
-    ;
-Pad
-=	true // trailing space 
-;asx=
-    false ;Header=""" ++ [233]%N ++ runes_of_ascii "t" ++ [233]%N ++ runes_of_ascii """ roots = ""it's""
-} // " ++ [128512]%N ++ runes_of_ascii " emoji
-options { // a // b
-a1
-    =
-//	t
-//	t
-false
-;
-asx	= '\x00'
-; zchar  =""packet"" BodyLength	= """"// trailing space 
-As
-= true } packet rootA//x
-{} packet	calculatedFrom { repeat	char[]
-matchKey ,  repeat trueish {	i16 repeatCount @lengthOf( rootA ) , } , uint64
-i8i8 , int64 _x @calculatedFrom(
-""// no comment"") ,
-@lengthOf(tag ) repeat
-    leftPad	, @lengthOf( o  ) // " ++ [128512]%N ++ runes_of_ascii " emoji
-zchar
-    // packet A { u8 x, }
-    @calculatedFrom(""`tick`""
-) ,tag @lengthOf(
-x_y_z
-    // `tick` ""quote"" 'q'
-    ) ,
-A@lengthOf(
-    uint8x )`u8 x,` ,/// triple
-roots { u128
-    ,	} , } root // " ++ [27880; 37322]%N ++ runes_of_ascii "
-packet uint8x
-{A // " ++ [27880; 37322]%N ++ runes_of_ascii "
-@lengthOf(
-    x )`" ++ [233]%N ++ runes_of_ascii "` , }")).
-Eval vm_compute in ("<<<M1025>>>" ++ check (runes_of_ascii "root packet
-roots //
-{ // trailing space 
-} root packet MetaDataX
-{
-char[255 ]	rootA , }/// triple
-packet u8x { @rightPad
-( // " ++ [27880; 37322]%N ++ runes_of_ascii "
-) msg_type@lengthOf( Z9_
-) , char[
-    0
-] x_y_z @lengthOf( len )// " ++ [27880; 37322]%N ++ runes_of_ascii "
-`it's`// " ++ [128512]%N ++ runes_of_ascii " emoji
-, @rightPad
-( ' ') int16 calculatedFrom ,chars @lengthOf(//x
-msg_type
-)
-//	t
-// @lengthOf(
-`it's`
-,
-    repeat pack { repeat u64 // c
-x
-    ,
-}	, i8
-metadata @calculatedFrom(""" ++ [28040; 24687]%N ++ runes_of_ascii """ )
-,
-    match o as len { [ 0123456789 ,
-""a\""b"" , 65535
-    // `tick` ""quote"" 'q'
-    ,
-""" ++ [128512]%N ++ runes_of_ascii """ , 0123456789 ,
-""{,}""] : body 3:
-As , 3: As ,
-42 : int , 1// @lengthOf(
-:
-    o
-    ,  [ 1
-    ]
-: o// c
-,
-} ,
-zchar[ 007] asx
-,
-    asx
-@lengthOf( zchar
-// packet A { u8 x, }
-// @lengthOf(
-) ,
-f64 Logon
-    ``
-    // " ++ [27880; 37322]%N ++ runes_of_ascii "
-    ,
-} //")).
-Eval vm_compute in ("<<<M3988>>>" ++ check (runes_of_ascii "packet Frame {
-    // c2a
-    // c2b
-    u8 HK,// c5a
-    // c5b
-    u8 BK,
-    u8 TK,// c11a
-    // c11b
-    match HK as Hdr {
-        // c16
-        1 : HdrA,
-        // c20a
-        // c20b
-        2 : HdrB,
-    },
-    // c26
-    match BK as Body {
-        // c31
-        1 : BodyA,
-        // c35
-        2 : BodyB,
-        // c39
-    },// c41
-    match TK as Trl {
-        // c46
-        1 : TrlA,
-    },// c52
-}// c53
-
-packet HdrA {
-    u8 a,
-    // c59
-}
-
-packet HdrB {
-    u16 b,
-}// c67a
-
-// c67b
-packet BodyA {
-    // c70
-    u32 c,
-    // c73
-}
-
-// c74
-packet BodyB {
-    // c77
-    u64 d,// c80
-}
-
-// c81
-packet TrlA {
-    u8 e,
-}
-
-root packet Msg {
-    Frame,
-    u8 x,
-}// c98")).
-Eval vm_compute in ("<<<M688>>>" ++ check (runes_of_ascii "options { msg_type
-=65535
-    ; a1 = """ ++ [128512]%N ++ runes_of_ascii """
-; Foo
-=  ""\" ++ [233]%N ++ runes_of_ascii """matchKey
-=
-'0'
-; chars = """ ++ [28040; 24687]%N ++ runes_of_ascii """
-    //	t
-    } packet lengthOf {
-// c
-//x
-} MetaData body
-{
-    A len // packet A { u8 x, }
-`" ++ [28040; 24687; 31867; 22411]%N ++ runes_of_ascii "` ,}
-packet
-    o{
-@rightPad //x
-(
-'\x00' ) int
-// `tick` ""quote"" 'q'
-// packet A { u8 x, }
-roots , repeat
-    u8x
-`tab	here`	,
-i32 x_y_z @lengthOf( Logon
-) `line1
-line2`,
-    _x
-Z9_ , @lengthOf(
-zchar )  i32 msg_type `doc`
-,	@rightPad ( ' '	) i8 options1
-    //
-    ,
-@lengthOf(packetx) charz
-@lengthOf(
-// packet A { u8 x, }
-// trailing space 
-o
-    ) , @rightPad ( ' ' ) match /// triple
-packetx as leftPad{
-    [ ""{,}""  ,
-""" ++ [128512]%N ++ runes_of_ascii """
-    ]:
-    charz	,
-    } ,	}
-")).
-Eval vm_compute in ("<<<M1268>>>" ++ check (runes_of_ascii "  packet	Packet{ } root
-packet pack { @calculatedFrom( ""CRC32"")string
-pack`two words`
-    // " ++ [128512]%N ++ runes_of_ascii " emoji
-    , @lengthOf(Pad
-    )
-@lengthOf(
-rootA ) i16 A`doc`, } options {asx =00;
-string_= 7 ;
-x_y_z= 0123456789; } packet uint8x { int32
-trueish @lengthOf( roots ) `say ""hi""` ,
-    @tag( 1 ) @lengthOf(	a1 )
-match
-f32a as
-MetaDataX {
-/// triple
-// trailing space 
-7 :	pack 65535 :
-//
-// `tick` ""quote"" 'q'
-calculatedFrom
-// a // b
-// " ++ [27880; 37322]%N ++ runes_of_ascii "
-, [
-    3,""// no comment""
-    ,  1 ,
-/// triple
-/// triple
-0123456789 ]:
-    // c
-    Z9_ ,4294967296
-: a1 ,007:int """ ++ [128512]%N ++ runes_of_ascii """ : o
-,
-}
-    ,	repeat calculatedFrom a1 `crlf
-line`
-, }
-")).
-Eval vm_compute in ("<<<M4325>>>" ++ check (runes_of_ascii "
-
-  packet  Logon// `tick` ""quote"" 'q'
-	{@rightPad( 
-)
-
-repeat
-
-    Z9_
-	, match
-
-i64_ 
-	//x
-	// @lengthOf(
-	as len {
-
-65535
-        // " ++ [27880; 37322]%N ++ runes_of_ascii "
-    // @lengthOf(
-    :
-MetaDataX
-, """ ++ [128512]%N ++ runes_of_ascii """ :  u128,""" ++ [28040; 24687]%N ++ runes_of_ascii """
-    :
-
-lengthOf""a	b"" :  o
-
-    ,[	255// c
-] :
-As
-,[ ""\n""
-]
-
-    : 
-    // @lengthOf(
-  // trailing space 
-    o  ,  }	,
-@tag( 
-  //	t
-
-	// trailing space 
-
-  42
-	)
-    @tag(1
-    ) 	 //	t
-string_@calculatedFrom( ""1""
-
-    )
-, } 
-root packet
-
-matchKey { repeat u32
-    MetaDataX  ,float32
-
-As
-@lengthOf(
-charz )
-,a1	repeatCount	`
-`  , } packet msg_type
-
-// trailing space 
-{  }
-")).
-Eval vm_compute in ("<<<M4091>>>" ++ check (runes_of_ascii "
-root packet	rootA
-    {
-    @calculatedFrom( """ ++ [28040; 24687]%N ++ runes_of_ascii """ 
-) u
-`" ++ [233]%N ++ runes_of_ascii "`	, 
-body
-	, // " ++ [27880; 37322]%N ++ runes_of_ascii "
-
-	x@lengthOf(	options1	// @lengthOf(
-    )	, 
-  // " ++ [128512]%N ++ runes_of_ascii " emoji
-  // c
-    matchKey
-	, 
-@calculatedFrom(""packet""
-)char[] f32a
-,u8	options1
-    `tab	here`
-,
-}	packet
-Packet//
-		{}
-options{chars=
-
-    00
-
-    ; Foo// packet A { u8 x, }
-
-	=  true  ;
-	trueish
-    // " ++ [27880; 37322]%N ++ runes_of_ascii "
-  = 
-""1""
-
-    ;	zchar = f64  ;	matchKey
-    =// " ++ [27880; 37322]%N ++ runes_of_ascii "
-
-false
-	;
-
-} 
-packet metadata	{
-	@leftPad(	'\x00'
-)
-
-f32
-charz
-
-@calculatedFrom( ""{,}"")
-	`// not a comment` 
-,
-
-@calculatedFrom(	""1""
-)	repeat int8
-crc
-    , }
-
-")).
-Eval vm_compute in ("<<<M4199>>>" ++ check (runes_of_ascii "options {
-}
-
-packet Packet {
-    repeat zchar[0123456789] crc,
-    repeat zchar[4294967296] Z9_,// packet A { u8 x, }
-    rootA,
-    repeat Packet {
-        lengthOf {
-            u8x `{ , }`,
-            zchar[0123456789] lengthOf `{ , }`,// " ++ [27880; 37322]%N ++ runes_of_ascii "
-            Header {
-                repeat f32 As `line1
-                line2`,
-                charz @calculatedFrom(""1""),
-            },
-        },
-    },
-    i8 float @lengthOf(T),
-    @lengthOf(metadata)
-    @calculatedFrom(""packet"")
-    @lengthOf(repeatCount)
-    repeat f32 Foo,
-}")).
-Eval vm_compute in ("<<<M4443>>>" ++ check (runes_of_ascii "options {
-    x = true
-    trueish = 007;
-    float = int64;/// triple
-    metadata = true//	t
-}
-
-options {
-    As = ""{,}"";
-}
-
-packet As {
-    @rightPad('0')
-    @leftPad('0')
-    char[10] trueish,
-    @calculatedFrom(""`tick`"")
-    Foo {
-        int64 packetx @calculatedFrom(""a\""b"") `" ++ [28040; 24687; 31867; 22411]%N ++ runes_of_ascii "`,
-        repeat int64 int,
-        zchar[007] Header,
-        repeat body,// " ++ [27880; 37322]%N ++ runes_of_ascii "
-    },
-    repeat char[0] u8x,
-    Pad,
-    @rightPad('0')
-    f64 leftPad `a\`,
-    repeat rootA repeatCount `{ , }`,
-    rootA float `doc`,
-}")).
-Eval vm_compute in ("<<<M786>>>" ++ check (runes_of_ascii "MetaData
-    metadata{ } packet u // a // b
-{ //
-@lengthOf(	T) // packet A { u8 x, }
-@lengthOf(u ) /// triple
-@leftPad ('0'
-//	t
-// " ++ [27880; 37322]%N ++ runes_of_ascii "
-) repeat
-    uint8
-x_y_z `" ++ [28040; 24687; 31867; 22411]%N ++ runes_of_ascii "`,
-    } root packet A{ @tag(
-    // a // b
-    10 )
-repeat zchar[ 0
-    ]
-    asx `doc` ,
-    char[// @lengthOf(
-7 ]float//x
-@lengthOf(BodyLength)	`crlf
-line` ,
-zchar[ 0123456789 ] u128
-,@rightPad
-    ( )  repeat zchar[ 255
-] Packet
-    ``
-    ,BodyLength Pad
-,
-    @tag(1
-)zchar[
-    10] float @lengthOf( roots) ,}")).
-Eval vm_compute in ("<<<M366>>>" ++ check (runes_of_ascii "  packet tag  {
-@calculatedFrom(""" ++ [28040; 24687]%N ++ runes_of_ascii """)A
-    `" ++ [233]%N ++ runes_of_ascii "`
-    ,
-    // a // b
-    match u as
-// c
-// trailing space 
-len	{ [42 , """ ++ [233]%N ++ runes_of_ascii "t" ++ [233]%N ++ runes_of_ascii """ ] : As
-42 :
-    string_
-,
-""CRC32"" :
-body , ""x y"":
-    x //
-,  [
-// `tick` ""quote"" 'q'
-// @lengthOf(
-007 , 4294967296 ,""{,}"" ,
-""""
-    , """ ++ [28040; 24687]%N ++ runes_of_ascii """ , ""it's"" , """ ++ [128512]%N ++ runes_of_ascii """
-    ] : u
-    // " ++ [128512]%N ++ runes_of_ascii " emoji
-    ,""" ++ [28040; 24687]%N ++ runes_of_ascii """  : _x,  }
-,@lengthOf(rootA) u128 `doc`
-,// " ++ [27880; 37322]%N ++ runes_of_ascii "
-} options { falsey
-=
-string
-string_=int8 ; } options
-{// c
-charz
-// c
-// trailing space 
-= ""CRC32"" }
-")).
-Eval vm_compute in ("<<<M739>>>" ++ check (runes_of_ascii "
-packet
-    Pad{// `tick` ""quote"" 'q'
-@tag( 42)
-body
-u8x , char[ 3 ]
-u128
-`it's`
-,
-char[ 4294967296 ]uint8x`two words`  ,@lengthOf(	f32a ) body {repeat string roots ,Pad @calculatedFrom( ""\" ++ [233]%N ++ runes_of_ascii """ // trailing space 
-)
-,
-// trailing space 
-// " ++ [27880; 37322]%N ++ runes_of_ascii "
-metadata  crc`tab	here`, lengthOf
-    {zchar[  0 ] x_y_z
-    // packet A { u8 x, }
-    @lengthOf( crc )
-    `u8 x,` ,char[] roots ,
-    //x
-    } ,
-    } ,	}
-    // c
-    options {rootA =""packet""
-    }")).
-Eval vm_compute in ("<<<M1250>>>" ++ check (runes_of_ascii "  MetaData metadata	{repeatCount
-asx, u16 trueish ,i8i8 Foo
-`say ""hi""`// packet A { u8 x, }
-, char[ 4294967296 ]
-u,
-} packet uint8x {
-repeat char[]
-    u, @tag(007 )  char[7 ]falsey@calculatedFrom(""" ++ [233]%N ++ runes_of_ascii "t" ++ [233]%N ++ runes_of_ascii """ ) , @leftPad (
-    '\x00' )
-@lengthOf(	leftPad )
-Packet{
-    repeat //	t
-packetx Header ,tag `" ++ [233]%N ++ runes_of_ascii "` , i16 _x `a\` , },	repeat A {//	t
-repeat Header
-`doc` ,i64_  , char[ 10] asx
-    `two words`
-, }// `tick` ""quote"" 'q'
-,} 	 ")).
-Eval vm_compute in ("<<<M813>>>" ++ check (runes_of_ascii "packet chars	{
-} root  packet chars { zchar[// @lengthOf(
-00 ]
-    lengthOf
-    `" ++ [28040; 24687; 31867; 22411]%N ++ runes_of_ascii "` ,}root packet  tag  {
-    @rightPad ( '\x00' ) zchar[ 3] Foo @lengthOf(pack),
-zchar[ 10 ]tag ,	repeat uint32
-int, @rightPad
-    ( '\x00'
-)	@lengthOf(f32a ) @rightPad
-//
-//x
-( ' ' )Packet int ,
-match
-    //	t
-    len// " ++ [27880; 37322]%N ++ runes_of_ascii "
-as i8i8
-{ 10	: chars ,}
-    , @calculatedFrom( ""x y"" ) Z9_
-    @calculatedFrom(	""it's""	) ,
-    } //	t")).
-Eval vm_compute in ("<<<M3889>>>" ++ check (runes_of_ascii "packet body {
-    Pad {
-        a1 `crlf
-        line`,
-        zchar[007] a1,
-        char[10] x_y_z,
-        repeat zchar[1] metadata `u8 x,`,
-    },
-    string trueish,
-    repeat uint8x u,
-    @tag(007)
-    calculatedFrom {
-        repeat BodyLength `doc`,
-    },
-    int64 lengthOf,/// triple
-    @lengthOf(leftPad)
-    @calculatedFrom(""x y"")
-    @calculatedFrom(""\" ++ [233]%N ++ runes_of_ascii """)
-    falsey a1,
-}")).
-Eval vm_compute in ("<<<M114>>>" ++ check (runes_of_ascii "packet BodyLength {  @tag(
-0 )
-    char[
-4294967296 ]
-    options1 , }
-    root packet asx{ repeat string //x
-zchar //	t
-,
-    repeat char string_ `" ++ [28040; 24687; 31867; 22411]%N ++ runes_of_ascii "` ,
-    } options{ rootA = zchar[ 00
-] ;len = ""a\""b"" ; float =7;uint8x= f64 ;// `tick` ""quote"" 'q'
-}root packet
-    stringy{trueish Foo , } packet
-pack{ u64
-// @lengthOf(
-// c
-repeatCount @lengthOf( Header
-    ) ,
-}
-
-")).
-Eval vm_compute in ("<<<M4282>>>" ++ check (runes_of_ascii "
-MetaData 
-u
-
-    { }  options  { 
-// c
-	// @lengthOf(
-      float = int8  ;
-    rootA
-    =
-
-false
-;
-As
-= 
-int16 // `tick` ""quote"" 'q|'
-    repeatCount
-    // trailing space 
-	=
-
-int16 ;
-u8x
-= 
-//	t
-
-  '\x00'
-;
-}options{
-	repeatCount= 
-0  u128
-    //
-  =
-    false ;
-i64_ 
-
-    // trailing space 
-	// `tick` ""quote"" 'q'
-
-='0'
-
-    ;//	t
-
-  }
-
-")).
-Eval vm_compute in ("<<<M1152>>>" ++ check (runes_of_ascii "packet lengthOf { string falsey
-//
-// trailing space 
-, repeat char[] tag  `
-`
-    // " ++ [27880; 37322]%N ++ runes_of_ascii "
-    ,
-    @rightPad('0' ) body { int8 pack@calculatedFrom( """" )`say ""hi""`
-    ,// a // b
-repeat
-    char calculatedFrom ,float32 leftPad @lengthOf(
-A )
-// c
-// @lengthOf(
-, int64  Header ,	}
-, i64_`{ , }`
-,
-f64 repeatCount `" ++ [233]%N ++ runes_of_ascii "` ,
-} // trailing space ")).
-Eval vm_compute in ("<<<M200>>>" ++ check (runes_of_ascii "options
-{ }	MetaData
-Foo {
-char[
-    0 ]  Logon `u8 x,` ,// packet A { u8 x, }
-zchar[ 255 ]
-    calculatedFrom `
-` ,
-    zchar[ 00 ]o
-    `u8 x,` ,char[255 ]
-Header `a\`// `tick` ""quote"" 'q'
-, // a // b
-Pad
-    Pad ,
-    } packet i8i8 {
-    u32
-    // " ++ [128512]%N ++ runes_of_ascii " emoji
-    float,// @lengthOf(
-As @calculatedFrom( ""// no comment"" ) , }")).
-Eval vm_compute in ("<<<M1923>>>" ++ check (runes_of_ascii "MetaData
-    u { }  options {
-// c
-// @lengthOf(
-float = int8 ;rootA =false repeat As =	int16 // `tick` ""quote"" 'q'
-repeatCount
-    // trailing space 
-    =
-    int16
-; u8x =
-    //	t
-    '\x00' ; } options	{
-    repeatCount
-= 0
-u128
-    //
-    = false ; i64_
-// trailing space 
-// `tick` ""quote"" 'q'
-= '0' ; //	t
-}
-")).
-Eval vm_compute in ("<<<M1901>>>" ++ check (runes_of_ascii "MetaData
-    u { }  options {
-// c
-// @lengthOf(
-float = int8 ; ;rootA =false ; As =	int16 // `tick` ""quote"" 'q'
-repeatCount
-    // trailing space 
-    =
-    int16
-; u8x =
-    //	t
-    '\x00' ; } options	{
-    repeatCount
-= 0
-u128
-    //
-    = false ; i64_
-// trailing space 
-// `tick` ""quote"" 'q'
-= '0' ; //	t
-}
-")).
-Eval vm_compute in ("<<<M1907>>>" ++ check (runes_of_ascii "MetaData
-    u { }  options {
-// c
-// @lengthOf(
-float = int8 ;= rootA false ; As =	int16 // `tick` ""quote"" 'q'
-repeatCount
-    // trailing space 
-    =
-    int16
-; u8x =
-    //	t
-    '\x00' ; } options	{
-    repeatCount
-= 0
-u128
-    //
-    = false ; i64_
-// trailing space 
-// `tick` ""quote"" 'q'
-= '0' ; //	t
-}
-")).
-Eval vm_compute in ("<<<M1952>>>" ++ check (runes_of_ascii "MetaData
-    u { }  options {
-// c
-// @lengthOf(
-float = int8 ;rootA =false ; As =	int16 // `tick` ""quote"" 'q'
-repeatCount
-    // trailing space 
-    =
-    ;
-int16 u8x =
-    //	t
-    '\x00' ; } options	{
-    repeatCount
-= 0
-u128
-    //
-    = false ; i64_
-// trailing space 
-// `tick` ""quote"" 'q'
-= '0' ; //	t
-}
-")).
-Eval vm_compute in ("<<<M1888>>>" ++ check (runes_of_ascii "MetaData
-    u { }  options {
-// c
-// @lengthOf(
-root = int8 ;rootA =false ; As =	int16 // `tick` ""quote"" 'q'
-repeatCount
-    // trailing space 
-    =
-    int16
-; u8x =
-    //	t
-    '\x00' ; } options	{
-    repeatCount
-= 0
-u128
-    //
-    = false ; i64_
-// trailing space 
-// `tick` ""quote"" 'q'
-= '0' ; //	t
-}
-")).
-Eval vm_compute in ("<<<M1229>>>" ++ check (runes_of_ascii "packet leftPad { repeat string x	,float matchKey  `u8 x,` ,	repeat zchar[1 ]  u8x `doc` , @leftPad
-( ' ' ) i8i8 @lengthOf(
-rootA )// c
-,
-//	t
-// trailing space 
-int8 //
-x `doc` ,
-// c
-// @lengthOf(
-@tag( 1) @leftPad (
-'\x00' ) @lengthOf( // packet A { u8 x, }
-_x
-)
-char[] x @calculatedFrom(""""
-    )
-    ,	}
-")).
-Eval vm_compute in ("<<<M342>>>" ++ check (runes_of_ascii "root packet roots {  @tag(7 // `tick` ""quote"" 'q'
-) int64
-    A ,}
-//
-//
-packet u128
-    // a // b
-    { msg_type Pad
-`line1
-line2` , }options {crc = ""\" ++ [233]%N ++ runes_of_ascii """
-; }
-    root packet _x
-    {
-@lengthOf( pack// " ++ [27880; 37322]%N ++ runes_of_ascii "
-)
-    i16 MetaDataX	, calculatedFrom
-    { packetx@lengthOf(BodyLength )`{ , }` , } // a // b
-,}")).
-Eval vm_compute in ("<<<M3602>>>" ++ check (runes_of_ascii "// top
-packet // c0
-FooBar // c1a
-  // c1b
-{ // c2
-u8 a , // c5a
-  // c5b
-} // c6a
-  // c6b
-packet // c7a
-  // c7b
-foo_bar
-    // c8
-{ // c9a
-  // c9b
+    SubSum
+, 
+} root	packet
+	Frame{ 
 u16
-    // c10
-b // c11a
-  // c11b
-, }
-    // c13
-root // c14
-packet // c15
-R // c16
-{
-    // c17
-FooBar // c18
-, // c19
-foo_bar
-    // c20
-, } ")).
-Eval vm_compute in ("<<<M29>>>" ++ check (runes_of_ascii "// `tick` ""quote"" 'q'
-MetaData
-    pack {
-string MetaDataX , //
-zchar[ 65535
-] i8i8, pack rootA	`say ""hi""` ,
-    string_ Header `crlf
-line` ,
-int64
-string_ ,
+    MsgType
+,
+    u16
+	BodyLen@lengthOf(  Body
+
+    ),
+    Sub 
+Body
+
+,string
+
+    note 
+,	@calculatedFrom(
+""CRC16"" )
+
+u16 Checksum 
+,	u8 tail
+
+    ,}
+
+")).
+Eval vm_compute in ("<<<M571>>>" ++ check (runes_of_ascii "root packet tag { }  packet MetaDataX{char[007	]
+// c
 /// triple
-//	t
-char[]
-packetx
-,	} options
-    { trueish
-= ' '
-; i64_ =
-i16 pack = u16
-;
-len =false }	MetaData i64_{ }")).
-Eval vm_compute in ("<<<M725>>>" ++ check (runes_of_ascii "MetaData Header
-    {
-    char[ 1 ] As
-    ,
-}  MetaData
-As { } root
+asx  @calculatedFrom( ""a\""b""
+) `say ""hi""`// " ++ [27880; 37322]%N ++ runes_of_ascii "
+,  @tag(root )
+    char[1//x
+] packetx @calculatedFrom(""a\""b""
+    ) ,
+// " ++ [128512]%N ++ runes_of_ascii " emoji
 // a // b
+@calculatedFrom(""" ++ [233]%N ++ runes_of_ascii "t" ++ [233]%N ++ runes_of_ascii """  ) repeat pack // " ++ [27880; 37322]%N ++ runes_of_ascii "
+,
+    } // c")).
+Eval vm_compute in ("<<<M1846>>>" ++ check (runes_of_ascii "root packet tag {
+}
+
+packet MetaDataX {
+    char[007] asx @calculatedFrom(""a\""b"") `say ""hi""`,
+    @tag(4294967296)
+    zchar[1] packetx @calculatedFrom(""a\""b""),
+    // " ++ [128512]%N ++ runes_of_ascii " emoji
+    // a // b
+    @calculatedFrom(""" ++ [233]%N ++ runes_of_ascii "t" ++ [233]%N ++ runes_of_ascii """)
+    repeat pack,
+}// c")).
+Eval vm_compute in ("<<<M203>>>" ++ check (runes_of_ascii "packet u128  { @calculatedFrom(
+""a	b"" ) repeat  uint8x u128
+`line1
+line2`  , }
+    packet string_ { @calculatedFrom(
 // `tick` ""quote"" 'q'
-packet packetx { // " ++ [27880; 37322]%N ++ runes_of_ascii "
-T  @lengthOf(
-    packetx) ,/// triple
-i8i8 {float
-`" ++ [233]%N ++ runes_of_ascii "`
-    ,  char[] A
-// `tick` ""quote"" 'q'
-// a // b
-,falsey lengthOf
-, }, repeat  roots ,}")).
-Eval vm_compute in ("<<<M3747>>>" ++ check (runes_of_ascii "options
-{ 
-i64_ = ""\n""
-
-    ;BodyLength=float64
-
-i64_
-
-= false
-    ;} MetaData
-
-    Packet	{ uint16
-A
-
-`u8 x,`,  zchar[
-007	]
-    i64_
-
-    ,  char[007
-
-    ]
-
-chars , float64
-    x_y_z,  MetaDataX
-	stringy`// not a comment`
-,} MetaData
-msg_type 
-{ }
-")).
-Eval vm_compute in ("<<<M1518>>>" ++ check (runes_of_ascii "packet
-//	t
-// trailing space 
-_x {
 // packet A { u8 x, }
-// c
-char[
-3
-    ] u8x u8x @lengthOf(
-u8x ) , @calculatedFrom(""" ++ [128512]%N ++ runes_of_ascii """ // @lengthOf(
-)
-i16	Foo
-@lengthOf(	string_
-    )`doc`	, repeat	i64 metadata , @lengthOf( string_
-) i8 // c
-u  `line1
-line2`	,
-}
-")).
-Eval vm_compute in ("<<<M1633>>>" ++ check (runes_of_ascii "packet
-//	t
-// trailing space 
-_x {
-// packet A { u8 x, }
-// c
-char[
-3
-    ] u8x @lengthOf(
-u8x ) , @calculatedFrom(""" ++ [128512]%N ++ runes_of_ascii """ // @lengthOf(
-)
-i16	Foo
-@lengthOf(	string_
-    )`doc`	, repeat	i64 metadata , @lengthOf( string_
-) i8 // c
-u u  `line1
-line2`	,
-}
-")).
-Eval vm_compute in ("<<<M1509>>>" ++ check (runes_of_ascii "packet
-//	t
-// trailing space 
-_x {
-// packet A { u8 x, }
-// c
-char[
-]
-    3 u8x @lengthOf(
-u8x ) , @calculatedFrom(""" ++ [128512]%N ++ runes_of_ascii """ // @lengthOf(
-)
-i16	Foo
-@lengthOf(	string_
-    )`doc`	, repeat	i64 metadata , @lengthOf( string_
-) i8 // c
-u  `line1
-line2`	,
-}
-")).
-Eval vm_compute in ("<<<M1670>>>" ++ check (runes_of_ascii "packet
-//	t
-// trailing space 
-x" ++ [178]%N ++ runes_of_ascii " {
-// packet A { u8 x, }
-// c
-char[
-3
-    ] u8x @lengthOf(
-u8x ) , @calculatedFrom(""" ++ [128512]%N ++ runes_of_ascii """ // @lengthOf(
-)
-i16	Foo
-@lengthOf(	string_
-    )`doc`	, repeat	i64 metadata , @lengthOf( string_
-) i8 // c
-u  `line1
-line2`	,
-}
-")).
-Eval vm_compute in ("<<<M1562>>>" ++ check (runes_of_ascii "packet
-//	t
-// trailing space 
-_x {
-// packet A { u8 x, }
-// c
-char[
-3
-    ] u8x @lengthOf(
-u8x ) , @calculatedFrom(""" ++ [128512]%N ++ runes_of_ascii """ // @lengthOf(
-)
-i16	
-@lengthOf(	string_
-    )`doc`	, repeat	i64 metadata , @lengthOf( string_
-) i8 // c
-u  `line1
-line2`	,
-}
-")).
-Eval vm_compute in ("<<<M1522>>>" ++ check (runes_of_ascii "packet
-//	t
-// trailing space 
-_x {
-// packet A { u8 x, }
-// c
-char[
-3
-    ] u8x 
-u8x ) , @calculatedFrom(""" ++ [128512]%N ++ runes_of_ascii """ // @lengthOf(
-)
-i16	Foo
-@lengthOf(	string_
-    )`doc`	, repeat	i64 metadata , @lengthOf( string_
-) i8 // c
-u  `line1
-line2`	,
-}
-")).
-Eval vm_compute in ("<<<M1132>>>" ++ check (runes_of_ascii "packet //
-x
-    { } packet lengthOf{  repeat a1 { lengthOf @lengthOf( x_y_z ) ,// `tick` ""quote"" 'q'
-zchar[ 0123456789
-    ]Packet , leftPad
-    u,
-    zchar[1 ] Foo
-    // @lengthOf(
-    @calculatedFrom(""`tick`""// " ++ [27880; 37322]%N ++ runes_of_ascii "
-) , }
-,  } 	 ")).
-Eval vm_compute in ("<<<M493>>>" ++ check (runes_of_ascii "options { }// a // b
-packet BodyLength {zchar[
-0123456789
-] packetx
-`doc`
-, repeat
-msg_type `// not a comment`
-// @lengthOf(
-// c
-,	zchar[00 ] len, chars
-@lengthOf(  chars ) `a\`	, }
-MetaData
-_x {	asx MetaDataX `{ , }`, }
-")).
-Eval vm_compute in ("<<<M100>>>" ++ check (runes_of_ascii "
-options{ calculatedFrom = false ; } packet i64_
-{
-    body,
-//	t
-//x
-}/// triple
-options { float
-=	true ;// @lengthOf(
-charz =// a // b
-char[65535 ]; u=/// triple
-true ;metadata = ""\" ++ [233]%N ++ runes_of_ascii """  matchKey = '\x00'
-    } // " ++ [27880; 37322]%N)).
-Eval vm_compute in ("<<<M1673>>>" ++ check (runes_of_ascii "options options { trueish = ""`tick`"" ; string_= """ ++ [233]%N ++ runes_of_ascii "t" ++ [233]%N ++ runes_of_ascii """
-    // c
-    } root
-    packet body { stringy @calculatedFrom(
-""a	b"" ) `line1
-line2` , }
-packet Logon {
-    @leftPad(
-    ' ' ) //	t
-u16 string_ `u8 x,` ,
-}
-")).
-Eval vm_compute in ("<<<M1732>>>" ++ check (runes_of_ascii "options { trueish = ""`tick`"" ; string_= """ ++ [233]%N ++ runes_of_ascii "t" ++ [233]%N ++ runes_of_ascii """
-    // c
-    } root
-    packet body body { stringy @calculatedFrom(
-""a	b"" ) `line1
-line2` , }
-packet Logon {
-    @leftPad(
-    ' ' ) //	t
-u16 string_ `u8 x,` ,
-}
-")).
-Eval vm_compute in ("<<<M1839>>>" ++ check (runes_of_ascii "options { trueish = ""`tick`"" ; string_= """ ++ [233]%N ++ runes_of_ascii "t" ++ [233]%N ++ runes_of_ascii """
-    // c
-    } root
-    packet body { stringy @calculatedFrom(
-""a	b"" ) `line1
-line2` , $ }
-packet Logon {
-    @leftPad(
-    ' ' ) //	t
-u16 string_ `u8 x,` ,
-}
-")).
-Eval vm_compute in ("<<<M1703>>>" ++ check (runes_of_ascii "options { trueish = ""`tick`"" ; =string_ """ ++ [233]%N ++ runes_of_ascii "t" ++ [233]%N ++ runes_of_ascii """
-    // c
-    } root
-    packet body { stringy @calculatedFrom(
-""a	b"" ) `line1
-line2` , }
-packet Logon {
-    @leftPad(
-    ' ' ) //	t
-u16 string_ `u8 x,` ,
-}
-")).
-Eval vm_compute in ("<<<M865>>>" ++ check (runes_of_ascii "packet calculatedFrom
-    { @calculatedFrom(
-""{,}"" )
-    // c
-    @tag(
-    65535 ) f32 Packet @lengthOf(o )
-    , @calculatedFrom(  ""`tick`"" ) uint32 MetaDataX  @calculatedFrom(""it's""  ) ``,
-} // a // b")).
-Eval vm_compute in ("<<<M3704>>>" ++ check (runes_of_ascii "options {
-    u8x = zchar[42];
-    roots = """ ++ [233]%N ++ runes_of_ascii "t" ++ [233]%N ++ runes_of_ascii """;
-    calculatedFrom = '0'
-    As = ""packet"";
-}
-
-options {
-    falsey = 10;
-    A = '\x00';
-    leftPad = """ ++ [233]%N ++ runes_of_ascii "t" ++ [233]%N ++ runes_of_ascii """;
-    crc = u16;
-    As = 255
-}/// triple")).
-Eval vm_compute in ("<<<M1791>>>" ++ check (runes_of_ascii "options { trueish = ""`tick`"" ; string_= """ ++ [233]%N ++ runes_of_ascii "t" ++ [233]%N ++ runes_of_ascii """
-    // c
-    } root
-    packet body { stringy @calculatedFrom(
-""a	b"" ) `line1
-line2` , }
-packet Logon {
-    (
-    ' ' ) //	t
-u16 string_ `u8 x,` ,
-}
-")).
-Eval vm_compute in ("<<<M3590>>>" ++ check (runes_of_ascii "// top
-packet // c0
-orderItem // c1a
-  // c1b
-{ u8 // c3
-a // c4
-, } // c6
-root
-    // c7
-packet // c8a
-  // c8b
-newOrder // c9
-{
-    // c10
-orderItem , // c12a
-  // c12b
-u8
-    // c13
-x , } ")).
-Eval vm_compute in ("<<<M3361>>>" ++ check (runes_of_ascii "// top
-packet
-    // c0
-x
-    // c1
-{
-    // c2
-@rightPad
-    // c3
-(
-    // c4
-)
-    // c5
-repeat
-    // c6
-roots
-    // c7
-Logon
-    // c8
-`doc`
-    // c9
-,
-    // c10
-}
-    // c11
-")).
-Eval vm_compute in ("<<<M3897>>>" ++ check (runes_of_ascii "
-packet
-	Z9_
-    { }
-    packet
-    f32a
-{ repeat
-metadata 
-
-    //	t
-  // " ++ [27880; 37322]%N ++ runes_of_ascii "
-	  `
-`
-
-    ,
-charz 	 // @lengthOf(
-  @calculatedFrom(
-
-    ""a\\"")
-	,
-
-    i64
-
-charz, }
-")).
-Eval vm_compute in ("<<<M1377>>>" ++ check (runes_of_ascii "packet trueish { Header repeatCount
-,
-    repeat metadata //	t
-tag // packet A { u8 x, }
-, //	t
-@lengthOf( calculatedFrom	) MetaDataX @lengthOf( packetx ) // a // b
-, }
-")).
-Eval vm_compute in ("<<<M4228>>>" ++ check (runes_of_ascii "  // c
-	packet 
-x
-{@lengthOf( metadata
-)repeat
-lengthOf
-	,a1 
-{  trueish ,  // c
-	//	t
-    MetaDataX
-	, },zchar[
-
-    42  ]
-rootA  // `tick` ""quote"" 'q'
-  ,  }
-")).
-Eval vm_compute in ("<<<M1006>>>" ++ check (runes_of_ascii "options {
-    calculatedFrom //x
-=float64; x_y_z = 00 } packet roots { @lengthOf( trueish)  zchar[
-// trailing space 
-// c
-42  ] charz , } MetaData Header {  }")).
-Eval vm_compute in ("<<<M2145>>>" ++ check (runes_of_ascii "options{
-_x
-= true
-} options
-{ o	= /// triple
-false
-    ; chars
-= ""\n"" ""\n"" } root packet	Pad
-/// triple
-// packet A { u8 x, }
-{	chars
-    // a // b
-    ,}")).
-Eval vm_compute in ("<<<M2423>>>" ++ check (runes_of_ascii "// c
-packet x { @lengthOf( metadata ) repeat lengthOf
-,a1{
-trueish	,// c
-repeat//	t
-MetaDataX , u16 , zchar[
-    42	] rootA // `tick` ""quote"" 'q'
-,
-    }
-")).
-Eval vm_compute in ("<<<M2185>>>" ++ check (runes_of_ascii "options{
-_x
-= true
-} options
-{ o	= /// triple
-false
-    ; chars
-= ""\n"" } root packet	Pad
-/// triple
-// packet A { u8 x, }
-{	chars
-    // a // b
-    ,} }")).
-Eval vm_compute in ("<<<M2196>>>" ++ check (runes_of_ascii "options{
-_x
-= true
-} options
-{ o	= /// triple
-false
-" ++ [0]%N ++ runes_of_ascii "    ; chars
-= ""\n"" } root packet	Pad
-/// triple
-// packet A { u8 x, }
-{	chars
-    // a // b
-    ,}")).
-Eval vm_compute in ("<<<M2132>>>" ++ check (runes_of_ascii "options{
-_x
-= true
-} options
-{ o	= /// triple
-false
-    ] chars
-= ""\n"" } root packet	Pad
-/// triple
-// packet A { u8 x, }
-{	chars
-    // a // b
-    ,}")).
-Eval vm_compute in ("<<<M2149>>>" ++ check (runes_of_ascii "options{
-_x
-= true
-} options
-{ o	= /// triple
-false
-    ; chars
-= ""\n""  root packet	Pad
-/// triple
-// packet A { u8 x, }
-{	chars
-    // a // b
-    ,}")).
-Eval vm_compute in ("<<<M4536>>>" ++ check (runes_of_ascii "
-packet
-A {	match
-
-    k
-    as n {
-
-    [ 1
-, ""bb"" 
-,
-	007 ,""d"" , 5
-	,
-""f"",
-7 , 
-""h"" , 9
-,
-
-""j""
-,
-	11
-
-]
-
-:	B 
-2
-:
-	C
-
-    }	,
-
-    }
-")).
-Eval vm_compute in ("<<<M4293>>>" ++ check (runes_of_ascii "packet
-T
-{
-	@lengthOf( // trailing space 
-  matchKey // packet A { u8 x, }
-
-) match u
-
-    as
-crc  {[""it's"", ""CRC32""
-    ,	3  ] 
-:Z9_ ,  }  ,}
-
-")).
-Eval vm_compute in ("<<<M594>>>" ++ check (runes_of_ascii "packet
-i8i8 {int32 As, options1{
+""" ++ [128512]%N ++ runes_of_ascii """ )
+uint8 Pad
+    @lengthOf(
+    o )
+`{ , }`, }")).
+Eval vm_compute in ("<<<M326>>>" ++ check (runes_of_ascii "// @lengthOf(
+root packet
+MetaDataX{
     repeat
-int{
-    //
-    uint16
-u, // a // b
-zchar`say ""hi""`
-// " ++ [128512]%N ++ runes_of_ascii " emoji
+i16
+packetx, @tag( 007 )
+x
+    @lengthOf(
+_x
+)
+,
+@calculatedFrom(  """ ++ [28040; 24687]%N ++ runes_of_ascii """ ) repeat
+Pad ,	@lengthOf(
+falsey) @tag( 00 ) @tag( 3
+    )string i8i8,}")).
+Eval vm_compute in ("<<<M676>>>" ++ check (runes_of_ascii "root packet len // trailing space 
+{
+// " ++ [27880; 37322]%N ++ runes_of_ascii "
 //	t
-,
-char[] trueish , }, } ,
-}")).
-Eval vm_compute in ("<<<M788>>>" ++ check (runes_of_ascii "MetaData //x
-matchKey {u calculatedFrom, } root packet u128 {string BodyLength @lengthOf( u8x ) , int @lengthOf( f32a ) `" ++ [28040; 24687; 31867; 22411]%N ++ runes_of_ascii "`
-    , } 	 ")).
-Eval vm_compute in ("<<<M4326>>>" ++ check (runes_of_ascii "packet 
-A
-
-{	match  k as n { [
-
-    ""a""
-,
-22  ,""c c""
-	,
-	4 , ""e""
-,	66,
-""g""
-
-    , 8	,
-""i""
-
-,
-	10
-
-] :
-	B
-    ,2	:	C
-	}
-
-,
-	} ")).
-Eval vm_compute in ("<<<M787>>>" ++ check (runes_of_ascii "packet MetaDataX
-    //
-    { @calculatedFrom( ""it's""
-    )	repeat int8 u128
+char[10
+] metadata	@lengthOf( o ) `crlf
+line`,
+    @rightPad
+( ' '
+) string
+    Header @calculatedFrom( ""a\\""
+    ), @lengthOf }
+")).
+Eval vm_compute in ("<<<M412>>>" ++ check (runes_of_ascii "packet
+    // `tick` ""quote"" 'q'
+    crc
 // packet A { u8 x, }
 //	t
-`// not a comment`
-, }")).
-Eval vm_compute in ("<<<M1319>>>" ++ check (runes_of_ascii "// `tick` ""quote"" 'q'
-options { i8i8
-=
-    // @lengthOf(
-    ""{,}""  ;
-calculatedFrom
-// " ++ [128512]%N ++ runes_of_ascii " emoji
-// trailing space 
-=42 ;
-}")).
-Eval vm_compute in ("<<<M3317>>>" ++ check (runes_of_ascii "root packet matchKey
-// c
-{ zchar[ 3 ] pack @calculatedFrom( ""a	b"" ) `doc` , } options { } MetaData A { int8 msg_type , }")).
-Eval vm_compute in ("<<<M3349>>>" ++ check (runes_of_ascii "root packet matchKey { zchar[ 3 ] pack @calculatedFrom( ""a	b"" ) `doc` , } options { } MetaData A
-// c
-{ int8 msg_type , }")).
-Eval vm_compute in ("<<<M4273>>>" ++ check (runes_of_ascii "
-MetaData
-    body{
-i64  pack  
-      // c
-		`it's`, }
-
-    packet
-
-stringy
-	{
-
-    int16
-	calculatedFrom
-	,
-}
+{
+u32 a1 true
+    // trailing space 
+    roots
+charz //
+`two words`,	}
+    MetaData int {
+} /// triple")).
+Eval vm_compute in ("<<<M686>>>" ++ check (runes_of_ascii "root packet len // trailing space 
+{
+// " ++ [27880; 37322]%N ++ runes_of_ascii "
+//	t
+char[10
+\] metadata	@lengthOf( o ) `crlf
+line`,
+    @rightPad
+( ' '
+) string
+    Header @calculatedFrom( ""a\\""
+    ), }
 ")).
-Eval vm_compute in ("<<<M1429>>>" ++ check (runes_of_ascii "
+Eval vm_compute in ("<<<M711>>>" ++ check (runes_of_ascii "root packet len // trailing space 
+{
+// " ++ [27880; 37322]%N ++ runes_of_ascii "
+//	t
+char[10
+metadata ]	@lengthOf( o ) `crlf
+line`,
+    @rightPad
+( ' '
+) string
+    Header @calculatedFrom( ""a\\""
+    ), }
+")).
+Eval vm_compute in ("<<<M655>>>" ++ check (runes_of_ascii "root packet tag { }  packet MetaDataX{char[007	]
+// c
+/// triple
+asx  @calculatedFrom( ""a\""b""
+) `say ""hi""`// " ++ [27880; 37322]%N ++ runes_of_ascii "
+,  @tag(4294967296 )
+    char[1//x
+] packetx @calcula")).
+Eval vm_compute in ("<<<M2009>>>" ++ check (runes_of_ascii "root
+
 packet
-    falsey { Header@calculatedFrom(""packet""  , ) char[
-    0123456789 ] packetx
-    , } // `tick` ""quote"" 'q'")).
-Eval vm_compute in ("<<<M4059>>>" ++ check (runes_of_ascii "MetaData matchKey {
-    char[255] Pad `it's`,
-    u8 x_y_z,
-    i64_ packetx `tab	here`,
-    trueish zchar `it's`,
-}")).
-Eval vm_compute in ("<<<M961>>>" ++ check (runes_of_ascii "
-options{ Pad
-=zchar[
-    10
-    ]  ;a1 //
-=
-    ""1""	stringy
-=
-""{,}""
-;
-uint8x='0' BodyLength =
-    1 ; //	t
-}")).
-Eval vm_compute in ("<<<M213>>>" ++ check (runes_of_ascii "root packet repeatCount
+matchKey  {
+
+zchar[ 3
+]
+
+    pack
+
+    @calculatedFrom( ""a	b"" 
+)	`doc` ,
+
+}
+
+options  {
+
+    }MetaData
+    A { int8 
 // c
-// " ++ [128512]%N ++ runes_of_ascii " emoji
-{
-msg_type// `tick` ""quote"" 'q'
-{
-float64 lengthOf
-`" ++ [233]%N ++ runes_of_ascii "`,
+  	msg_type
+,
 }
-    ,  }")).
-Eval vm_compute in ("<<<M3983>>>" ++ check (runes_of_ascii "options {
-    stringy = '0';
-    body = ""// no comment"";
-    pack = char[]
-}
-
-options {
-    x = 65535
-}//x")).
-Eval vm_compute in ("<<<M4345>>>" ++ check (runes_of_ascii "options {
-    options1 = uint64;
-}
-
-root packet T {
-    MetaDataX `// not a comment`,
-}
-
-packet crc {
-}")).
-Eval vm_compute in ("<<<M992>>>" ++ check (runes_of_ascii "packet BodyLength {
-    uint16 tag // packet A { u8 x, }
-, uint8 Header @lengthOf(
-    chars )
-, }
 ")).
-Eval vm_compute in ("<<<M3535>>>" ++ check (runes_of_ascii "  packet
-    Inner
+Eval vm_compute in ("<<<M1629>>>" ++ check (runes_of_ascii "
+packet A
+    {
 
-    {	u8
+match k	as
+	n
+    {[
+    ""a"" ,
+    ""bb""
+	,
+007, ""d""	, 
+""e""
+,  66	,
 
-    a
+    ""g""
 
-    ,  }	root packet
+,  ""h"" ,  9 ,
 
-P
-{ Inner	ref_obj ,
-	u8
+    ""j""  ]
+:
 
-x
-, }
+B 2
+:
+C
+}
+	, }
 ")).
-Eval vm_compute in ("<<<M4188>>>" ++ check (runes_of_ascii "MetaData a1 {
-    Foo body `{ , }`,
-    int32 int ``,
-    i32 a1 `" ++ [28040; 24687; 31867; 22411]%N ++ runes_of_ascii "`,
-    int8 msg_type ``,
+Eval vm_compute in ("<<<M81>>>" ++ check (runes_of_ascii "
+root packet // `tick` ""quote"" 'q'
+rootA { @rightPad (
+) @leftPad(	) @lengthOf(  MetaDataX  )float// c
+u128`a\` , // `tick` ""quote"" 'q'
+}
+")).
+Eval vm_compute in ("<<<M2045>>>" ++ check (runes_of_ascii "packet A {
+    match k as n {
+        [
+            1, ""bb"", 007, ""d"", 5,
+            ""f"", 7
+        ] : B,
+        2 : C,
+    },
 }")).
-Eval vm_compute in ("<<<M3532>>>" ++ check (runes_of_ascii "
-
-  options
-{
-	LittleEndian
-    =	true
-; }	root packet
-
-P
-
-    {repeat  char cs,u8
-x	, 
+Eval vm_compute in ("<<<M1668>>>" ++ check (runes_of_ascii "packet A {
+    u16 len @lengthOf(body) `x
+        `,
+    u32 crc @calculatedFrom(""CRC32"") `x
+        `,
+    string body,
 }")).
-Eval vm_compute in ("<<<M3935>>>" ++ check (runes_of_ascii "packet A {
-    u32 crc @calculatedFrom(""\
-    ""),
-    @calculatedFrom(""\
-    "")
-    u8 y,
-}")).
-Eval vm_compute in ("<<<M2943>>>" ++ check (runes_of_ascii "packet A {
-  match k as n {
-    [""a"", 22, ""c c"", 4, ""e"", 66, ""g"", 8] : B
-    2 : C
-  },
-}")).
-Eval vm_compute in ("<<<M3297>>>" ++ check (runes_of_ascii "MetaData float { float64 charz `
-` , } root packet chars { @rightPad ( '0' // c
-) Foo , }")).
-Eval vm_compute in ("<<<M3508>>>" ++ check (runes_of_ascii "packet chars { } packet MetaDataX { @tag( 42 ) i16 string_
+Eval vm_compute in ("<<<M1252>>>" ++ check (runes_of_ascii "root packet matchKey { zchar[ 3 ] pack @calculatedFrom( ""a	b"" ) `doc` , } options
 // c
-, repeat x `say ""hi""` , }")).
-Eval vm_compute in ("<<<M2934>>>" ++ check (runes_of_ascii "packet A {
-  match k as n {
-    [""a"", ""bb"", 007, ""d"", ""e"", 66, ""g""] : B
-    2 : C
-  },
+{ } MetaData A { int8 msg_type , }")).
+Eval vm_compute in ("<<<M1947>>>" ++ check (runes_of_ascii "packet metadata {
+    Logon {
+        A `" ++ [28040; 24687; 31867; 22411]%N ++ runes_of_ascii "`,
+        tag o,
+        // c
+    },
+    zchar len `// not a comment`,
 }")).
-Eval vm_compute in ("<<<M4369>>>" ++ check (runes_of_ascii "
-options
-	{ 
-FixedStringPadFromLeft
-=	true  ;}root
-packet P  {
-    char[	4] z
+Eval vm_compute in ("<<<M1964>>>" ++ check (runes_of_ascii "
+packet chars{
 
+} packet 
+MetaDataX
+    {  @tag( 42 // c
+    )
+	i16
+    string_ ,
+    repeat x`say ""hi""`
 ,
 	}
-
 ")).
-Eval vm_compute in ("<<<M3216>>>" ++ check (runes_of_ascii "packet metadata
+Eval vm_compute in ("<<<M2079>>>" ++ check (runes_of_ascii "options	{
+LittleEndian= true
+;}
+root 
+packet
+P
+{ u16
+
+    a ,
+u32
+
+Sum @calculatedFrom(
+""CR\
+C32"" ) , }")).
+Eval vm_compute in ("<<<M1628>>>" ++ check (runes_of_ascii "MetaData float {
+    float64 charz `
+        `,
+}// c
+
+root packet chars {
+    @rightPad('0')
+    Foo,
+}")).
+Eval vm_compute in ("<<<M891>>>" ++ check (runes_of_ascii "packet A {
+  match k as n {
+    [1, ""bb"", 007, ""d"", 5, ""f"", 7, ""h"", 9, ""j"", 11] : B
+    2 : C
+  },
+}")).
+Eval vm_compute in ("<<<M871>>>" ++ check (runes_of_ascii "packet A {
+  match k as n {
+    [""a"", ""bb"", 007, ""d"", ""e"", 66, ""g"", ""h"", 9] : B
+    2 : C
+  },
+}")).
+Eval vm_compute in ("<<<M1923>>>" ++ check (runes_of_ascii "MetaData body {
+    i64 pack `it's`,
+}
+
+packet stringy {
+    int16 calculatedFrom,
+    // c
+}")).
+Eval vm_compute in ("<<<M1178>>>" ++ check (runes_of_ascii "// c
+MetaData float { float64 charz `
+` , } root packet chars { @rightPad ( '0' ) Foo , }")).
+Eval vm_compute in ("<<<M1211>>>" ++ check (runes_of_ascii "MetaData float { float64 charz `
+` , } root packet chars { @rightPad ( '0' )
 // c
-{ Logon { A `" ++ [28040; 24687; 31867; 22411]%N ++ runes_of_ascii "` , tag o , } , zchar len `// not a comment` , }")).
-Eval vm_compute in ("<<<M3465>>>" ++ check (runes_of_ascii "packet o { repeat Logon uint8x , } options { asx = zchar[ 3 ] stringy = '\x00' } // c
-")).
-Eval vm_compute in ("<<<M3439>>>" ++ check (runes_of_ascii "packet o { repeat Logon uint8x // c
-, } options { asx = zchar[ 3 ] stringy = '\x00' }")).
-Eval vm_compute in ("<<<M2778>>>" ++ check (runes_of_ascii "char[] @calculatedFrom( int32 string match false MetaData @tag( i16 } repeat : uint8")).
-Eval vm_compute in ("<<<M4568>>>" ++ check (runes_of_ascii "// top
-    MetaData
-	    // c0
-  o 
-    // c1
-	{
+Foo , }")).
+Eval vm_compute in ("<<<M1422>>>" ++ check (runes_of_ascii "packet chars { } packet MetaDataX { @tag( 42 ) i16 string_ , repeat // c
+x `say ""hi""` , }")).
+Eval vm_compute in ("<<<M547>>>" ++ check (runes_of_ascii "root packet tag { }  packet MetaDataX{char[007	]
+// c
+/// triple
+asx  @calculatedFrom(")).
+Eval vm_compute in ("<<<M1152>>>" ++ check (runes_of_ascii "packet metadata { Logon { A `" ++ [28040; 24687; 31867; 22411]%N ++ runes_of_ascii "` , tag o , } , zchar len // c
+`// not a comment` , }")).
+Eval vm_compute in ("<<<M1357>>>" ++ check (runes_of_ascii "packet o { repeat Logon uint8x , } options
+// c
+{ asx = zchar[ 3 ] stringy = '\x00' }")).
+Eval vm_compute in ("<<<M1798>>>" ++ check (runes_of_ascii "packet order_item {
+    u8 a,
+}
 
-    // c2
-    } 
-        // c3
-")).
-Eval vm_compute in ("<<<M3414>>>" ++ check (runes_of_ascii "MetaData body { i64 pack `it's` , } packet stringy { // c
-int16 calculatedFrom , }")).
-Eval vm_compute in ("<<<M413>>>" ++ check (runes_of_ascii "options
+root packet new_order {
+    order_item,
+    u8 x,
+}")).
+Eval vm_compute in ("<<<M1318>>>" ++ check (runes_of_ascii "MetaData body { i64 pack `it's` ,
+// c
+} packet stringy { int16 calculatedFrom , }")).
+Eval vm_compute in ("<<<M818>>>" ++ check (runes_of_ascii "packet A {
+  match k as n {
+    [""a"", ""bb"", 007, ""d"", ""e""] : B,
+    2 : C
+  },
+}")).
+Eval vm_compute in ("<<<M813>>>" ++ check (runes_of_ascii "packet A {
+  match k as n {
+    [1, ""bb"", 007, ""d"", 5] : B
+    2 : C
+  },
+}")).
+Eval vm_compute in ("<<<M1902>>>" ++ check (runes_of_ascii "
+options
+
     {
-    Foo =  u16
-;
-    As
-=
-char lengthOf = 00 As =
-false ;
+
+x_y_z = 
+true ; a1
+= true
+
+;  options1
+
+=  true ; }
+")).
+Eval vm_compute in ("<<<M846>>>" ++ check (runes_of_ascii "packet A { Inner { match k as n { [1,22,007,4,5,66,7] : B, }, }, }")).
+Eval vm_compute in ("<<<M1869>>>" ++ check (runes_of_ascii "MetaData chars {
+    f32 metadata,
+    i64 metadata `
+    `,
+}")).
+Eval vm_compute in ("<<<M1278>>>" ++ check (runes_of_ascii "packet x // c
+{ @rightPad ( ) repeat roots Logon `doc` , }")).
+Eval vm_compute in ("<<<M1783>>>" ++ check (runes_of_ascii "MetaData	u128
+    {
+
+uint8x	msg_type
+`line1
+line2`
+,}
+")).
+Eval vm_compute in ("<<<M751>>>" ++ check (runes_of_ascii "i16 u32 string } : } f64 @tag( root ) `` @tag( (")).
+Eval vm_compute in ("<<<M168>>>" ++ check (runes_of_ascii "root packet leftPad
+    { f32a	tag ,
     }
 ")).
-Eval vm_compute in ("<<<M4308>>>" ++ check (runes_of_ascii "MetaData T {
-    char[] packetx,//
-    Packet u,
-    i32 _x,
-    uint16 asx,
-}")).
-Eval vm_compute in ("<<<M83>>>" ++ check (runes_of_ascii "MetaData
-Packet
-{
-    }options { Z9_ =
-char[] ; _x=
-'0';
-body
-=
-false }
-")).
-Eval vm_compute in ("<<<M2897>>>" ++ check (runes_of_ascii "packet A {
-  match k as n {
-    [1, 22, 007, 4, 5] : B,
-    2 : C
-  },
-}")).
-Eval vm_compute in ("<<<M161>>>" ++ check (runes_of_ascii "// trailing space 
-packet
-Header { // c
-repeat  char[] MetaDataX , }")).
-Eval vm_compute in ("<<<M3564>>>" ++ check (runes_of_ascii "root packet P {
-    u16 a,
-    u32 Sum @calculatedFrom(""CRC32""),
-}
-")).
-Eval vm_compute in ("<<<M2143>>>" ++ check (runes_of_ascii "options{
-_x
-= true
-} options
-{ o	= /// triple
-false
-    ; chars")).
-Eval vm_compute in ("<<<M2290>>>" ++ check (runes_of_ascii "options
-{ } options { BodyLength= u16 Header= f64 ; u128 =
-  ")).
-Eval vm_compute in ("<<<M2859>>>" ++ check (runes_of_ascii "packet A {
-  match k as n {
-    [""a""] : B,
-    2 : C
-  },
-}")).
-Eval vm_compute in ("<<<M3373>>>" ++ check (runes_of_ascii "packet x { @rightPad ( // c
-) repeat roots Logon `doc` , }")).
-Eval vm_compute in ("<<<M1441>>>" ++ check (runes_of_ascii "
-packet
-    falsey { Header@calculatedFrom(""packet""  ) ,")).
-Eval vm_compute in ("<<<M2133>>>" ++ check (runes_of_ascii "options{
-_x
-= true
-} options
-{ o	= /// triple
-false")).
-Eval vm_compute in ("<<<M4435>>>" ++ check (runes_of_ascii "MetaData
-
-    pack{
-    f64
-A `{ , }`
-    ,  }")).
-Eval vm_compute in ("<<<M801>>>" ++ check (runes_of_ascii "MetaData charz {
-//
-//	t
-f32a stringy
-    ,	}
-")).
-Eval vm_compute in ("<<<M784>>>" ++ check (runes_of_ascii "
-root packet float{repeat charz falsey  , }
-")).
-Eval vm_compute in ("<<<M4334>>>" ++ check (runes_of_ascii "
-packet  // a // b
-    	int	{ }  // a // b")).
-Eval vm_compute in ("<<<M3195>>>" ++ check (runes_of_ascii "root packet u128 { // c
+Eval vm_compute in ("<<<M1106>>>" ++ check (runes_of_ascii "root packet u128 { // c
 chars `it's` , }")).
-Eval vm_compute in ("<<<M2607>>>" ++ check (runes_of_ascii "packet A { match k as n { 1 : B,, }, }")).
-Eval vm_compute in ("<<<M2821>>>" ++ check ([65533; 1912; 65533; 1; 65533; 21]%N ++ runes_of_ascii "TV" ++ [65533; 65533; 65533]%N ++ runes_of_ascii "'" ++ [65533]%N ++ runes_of_ascii "p_" ++ [22; 65533; 65533; 65533; 65533; 65533; 65533]%N ++ runes_of_ascii "T=%3" ++ [65533]%N ++ runes_of_ascii "ZHz" ++ [28; 22; 1]%N ++ runes_of_ascii "r" ++ [65533; 65533]%N)).
-Eval vm_compute in ("<<<M135>>>" ++ check (runes_of_ascii "MetaData pack { f64 A `{ , }` ,}
-
-")).
-Eval vm_compute in ("<<<M2759>>>" ++ check ([65533; 65533; 65533; 65533]%N ++ runes_of_ascii "Q" ++ [2; 65533; 65533; 29; 65533]%N ++ runes_of_ascii "%" ++ [30; 65533]%N ++ runes_of_ascii "f" ++ [65533; 65533]%N ++ runes_of_ascii ";lJ" ++ [65533]%N ++ runes_of_ascii "p" ++ [65533]%N ++ runes_of_ascii "," ++ [65533; 65533; 65533; 65533; 65533]%N ++ runes_of_ascii "[k-" ++ [65533; 65533]%N)).
-Eval vm_compute in ("<<<M550>>>" ++ check (runes_of_ascii "
-packet int {} packet roots
-{}")).
-Eval vm_compute in ("<<<M3082>>>" ++ check (runes_of_ascii "packet A {
- u8 x `d" ++ [5760]%N ++ runes_of_ascii "`, // c" ++ [5760]%N ++ runes_of_ascii "
+Eval vm_compute in ("<<<M687>>>" ++ check (runes_of_ascii "root packet len // trailing space 
+{")).
+Eval vm_compute in ("<<<M1603>>>" ++ check (runes_of_ascii "packet A {
+    u8 x `d `,// c 
 }")).
-Eval vm_compute in ("<<<M1273>>>" ++ check (runes_of_ascii "packet
-    repeatCount
-{  }
+Eval vm_compute in ("<<<M1961>>>" ++ check (runes_of_ascii "// " ++ [27880; 37322]%N ++ runes_of_ascii "
+packet matchKey {
+}
+// c")).
+Eval vm_compute in ("<<<M11>>>" ++ check (runes_of_ascii "options { falsey
+= false}")).
+Eval vm_compute in ("<<<M752>>>" ++ check (runes_of_ascii "1-I" ++ [65533; 65533]%N ++ runes_of_ascii "Z" ++ [65533; 65533; 65533; 65533; 65533; 65533; 14; 65533; 65533; 65533]%N ++ runes_of_ascii "/" ++ [1765; 65533; 65533]%N)).
+Eval vm_compute in ("<<<M991>>>" ++ check (runes_of_ascii "packet A {
+}
+// c" ++ [5760]%N)).
+Eval vm_compute in ("<<<M969>>>" ++ check (runes_of_ascii "packet A {
+}// c ")).
+Eval vm_compute in ("<<<M183>>>" ++ check (runes_of_ascii "packet T
+{}
 ")).
-Eval vm_compute in ("<<<M3037>>>" ++ check (runes_of_ascii "packet A {
-    u8 x `
-x`,
-}")).
-Eval vm_compute in ("<<<M2598>>>" ++ check (runes_of_ascii "packet A { B { u8 x, }, }")).
-Eval vm_compute in ("<<<M2664>>>" ++ check (runes_of_ascii "options { a = char[x]; }")).
-Eval vm_compute in ("<<<M3722>>>" ++ check (runes_of_ascii "packet matchKey {
-}//x")).
-Eval vm_compute in ("<<<M2666>>>" ++ check (runes_of_ascii "options { a = `d`; }")).
-Eval vm_compute in ("<<<M2724>>>" ++ check (runes_of_ascii "8""" ++ [65533; 65533; 65533; 24; 65533; 26]%N ++ runes_of_ascii "fLV" ++ [65533; 65533]%N ++ runes_of_ascii "J" ++ [19; 914; 65533; 27; 918]%N)).
-Eval vm_compute in ("<<<M3071>>>" ++ check (runes_of_ascii "// c" ++ [160]%N ++ runes_of_ascii "
-packet A {
-}")).
-Eval vm_compute in ("<<<M151>>>" ++ check (runes_of_ascii "packet  float{ }
-")).
-Eval vm_compute in ("<<<M3166>>>" ++ check (runes_of_ascii "options { // a
- }")).
-Eval vm_compute in ("<<<M315>>>" ++ check (runes_of_ascii "MetaData As{ }")).
-Eval vm_compute in ("<<<M2553>>>" ++ check ([65279]%N ++ runes_of_ascii "packet A {}")).
-Eval vm_compute in ("<<<M2481>>>" ++ check (runes_of_ascii "@rightPad")).
-Eval vm_compute in ("<<<M2459>>>" ++ check (runes_of_ascii "strings")).
-Eval vm_compute in ("<<<M286>>>" ++ check (runes_of_ascii " //	t")).
-Eval vm_compute in ("<<<M3104>>>" ++ check (runes_of_ascii "// c" ++ [8239]%N)).
-Eval vm_compute in ("<<<M2547>>>" ++ check (runes_of_ascii "a
-b")).
-Eval vm_compute in ("<<<M2551>>>" ++ check (runes_of_ascii "a" ++ [160]%N ++ runes_of_ascii "b")).
-Eval vm_compute in ("<<<M2737>>>" ++ check (runes_of_ascii "*F")).
+Eval vm_compute in ("<<<M975>>>" ++ check (runes_of_ascii "// c" ++ [12288]%N)).
+Eval vm_compute in ("<<<M727>>>" ++ check (runes_of_ascii "/")).
